@@ -155,7 +155,9 @@ Lemma gauss_step pivots rows v p others :
   gstate (gpiv v p pivots) (map (gsub v p) others) /\
   (forall k r1 r2, (dvs k r1 r2 (map snd pivots) /\ dvs k r1 r2 rows) <->
                    (dvs k r1 r2 (map snd (gpiv v p pivots)) /\ dvs k r1 r2 (map (gsub v p) others))) /\
-  (forall z, (forall r, In r rows -> gcR r z = 0) -> forall r, In r (map (gsub v p) others) -> gcR r z = 0).
+  (forall z, (forall r, In r rows -> gcR r z = 0) -> forall r, In r (map (gsub v p) others) -> gcR r z = 0) /\
+  (forall z, (forall r, In r rows -> gcR r z = 0) -> (forall x y, In (x, y) pivots -> gcR y z = 0) ->
+             forall x y, In (x, y) (gpiv v p pivots) -> gcR y z = 0).
 Proof.
   intros [Hwr Hwp Hnz Hind Hrow Hnd] Hf Hv.
   destruct (find_pivot_spec v rows p others Hf) as [Ha [Hp [Hsub [Hcov _]]]].
@@ -170,7 +172,10 @@ Proof.
             if String.eqb w v then gcR t v * gcR (solve_isolate p v) v
             else gcR t w + gcR t v * gcR (solve_isolate p v) w).
   { intros t w Ht. unfold gsub. apply gcR_subst; assumption. }
-  split; [|split].
+  assert (Hsz : forall z, (forall r, In r rows -> gcR r z = 0) -> gcR (solve_isolate p v) z = 0).
+  { intros z Hz. rewrite gcR_solve_isolate by assumption. destruct (String.eqb z v); [reflexivity|].
+    rewrite (Hz p Hp). field. exact Ha. }
+  split; [|split; [|split]].
   - constructor.
     + apply Forall_forall. intros r Hr. apply in_map_iff in Hr. destruct Hr as [r0 [<- Hr0]].
       apply wft_substitute_variable; [apply Hwr; apply Hsub; exact Hr0|exact Hws].
@@ -221,6 +226,9 @@ Proof.
     rewrite Hgs by (apply Hwr; apply Hsub; exact Hr0).
     destruct (String.eqb z v) eqn:E; [rewrite Hsv; lra|].
     rewrite (Hz r0 (Hsub _ Hr0)), gcR_solve_isolate by assumption. rewrite E, (Hz p Hp). field. exact Ha.
+  - intros z Hz Hpz x y Hi. apply in_gpiv in Hi. destruct Hi as [[p0 [Hi ->]]|[-> ->]]; [|apply Hz; exact Hp].
+    rewrite Hgs by (eapply Hwp; exact Hi). destruct (String.eqb z v); [rewrite Hsv; lra|].
+    rewrite (Hpz x p0 Hi), (Hsz z Hz). lra.
 Qed.
 
 Lemma gauss_spec vs : forall pivots rows pivots' rest,
@@ -234,23 +242,25 @@ Lemma gauss_spec vs : forall pivots rows pivots' rest,
   (forall v, In v (map fst pivots) -> In v (map fst pivots')) /\
   (forall z, (forall r, In r rows -> gcR r z = 0) -> forall r, In r rest -> gcR r z = 0) /\
   (forall v, In v vs -> ~ In v (map fst pivots') -> forall r, In r rest -> gcR r v = 0) /\
-  (List.length rest + List.length pivots' = List.length rows + List.length pivots)%nat.
+  (List.length rest + List.length pivots' = List.length rows + List.length pivots)%nat /\
+  (forall z, (forall r, In r rows -> gcR r z = 0) -> (forall x y, In (x, y) pivots -> gcR y z = 0) ->
+             forall x y, In (x, y) pivots' -> gcR y z = 0).
 Proof.
   induction vs as [|v vs IH]; intros pivots rows pivots' rest Hg Hnd Hdis Hst.
   - simpl in Hg. inversion Hg; subst. split; [exact Hst|]. split; [intros; tauto|].
     split; [intros; tauto|]. split; [intros; assumption|]. split; [intros z Hz; exact Hz|].
-    split; [intros v []|reflexivity].
+    split; [intros v []|]. split; [reflexivity|]. intros z _ Hz. exact Hz.
   - simpl in Hg. inversion Hnd as [|? ? Hv Hnd']; subst.
     destruct (find_pivot v rows) as [[p others]|] eqn:F.
     + assert (Hvp : ~ In v (map fst pivots)) by (apply Hdis; left; reflexivity).
-      destruct (gauss_step pivots rows v p others Hst F Hvp) as [Hst1 [Heq1 Hz1]].
+      destruct (gauss_step pivots rows v p others Hst F Hvp) as [Hst1 [Heq1 [Hz1 Hz2]]].
       change (gauss vs (gpiv v p pivots) (map (gsub v p) others) = (pivots', rest)) in Hg.
       assert (Hdis1 : forall x, In x vs -> ~ In x (map fst (gpiv v p pivots))).
       { intros x Hx. rewrite fst_gpiv, in_app_iff. simpl. intros [H|[H|[]]].
         - apply (Hdis x); [right; exact Hx|exact H].
         - subst. contradiction. }
-      destruct (IH _ _ _ _ Hg Hnd' Hdis1 Hst1) as [G1 [G2 [G3 [G4 [G5 [G6 G7]]]]]].
-      split; [exact G1|]. split; [|split; [|split; [|split; [|split]]]].
+      destruct (IH _ _ _ _ Hg Hnd' Hdis1 Hst1) as [G1 [G2 [G3 [G4 [G5 [G6 [G7 G8]]]]]]].
+      split; [exact G1|]. split; [|split; [|split; [|split; [|split; [|split]]]]].
       * intros k r1 r2. rewrite (Heq1 k r1 r2). apply G2.
       * intros x Hx. apply G3 in Hx. rewrite fst_gpiv, in_app_iff in Hx. simpl in Hx. simpl. tauto.
       * intros x Hx. apply G4. rewrite fst_gpiv, in_app_iff. left. exact Hx.
@@ -259,9 +269,10 @@ Proof.
         exfalso. apply Hn. apply G4. rewrite fst_gpiv, in_app_iff. right. left. reflexivity.
       * rewrite G7. unfold gpiv. rewrite app_length, !map_length. simpl.
         destruct (find_pivot_spec v rows p others F) as [_ [_ [_ [_ L]]]]. rewrite L. lia.
+      * intros z Hz Hpz. apply G8; [apply Hz1; exact Hz|apply Hz2; assumption].
     + assert (Hdis1 : forall x, In x vs -> ~ In x (map fst pivots)) by (intros x Hx; apply Hdis; right; exact Hx).
-      destruct (IH _ _ _ _ Hg Hnd' Hdis1 Hst) as [G1 [G2 [G3 [G4 [G5 [G6 G7]]]]]].
-      split; [exact G1|]. split; [exact G2|]. split; [|split; [exact G4|split; [exact G5|split; [|exact G7]]]].
+      destruct (IH _ _ _ _ Hg Hnd' Hdis1 Hst) as [G1 [G2 [G3 [G4 [G5 [G6 [G7 G8]]]]]]].
+      split; [exact G1|]. split; [exact G2|]. split; [|split; [exact G4|split; [exact G5|split; [|split; [exact G7|exact G8]]]]].
       * intros x Hx. apply G3 in Hx. simpl. tauto.
       * intros x [<-|Hx] Hn; [|apply G6; assumption].
         apply G5. apply find_pivot_none. exact F.
@@ -274,7 +285,8 @@ Lemma solve_unfold rows vs sols :
   let V := list_intersection (tl_vars rows) vs in
   List.length rows = List.length V /\
   exists pivots rest, gauss V [] rows = (pivots, rest) /\
-    ((forallb row_is_zero rest = true /\ sols = map sol_of pivots) \/ sols = []).
+    ((forallb row_is_zero rest = true /\ sols = map sol_of pivots) \/
+     (forallb row_is_zero rest = false /\ sols = [])).
 Proof.
   unfold solve_for_variables. cbv zeta.
   destruct (Nat.eqb (List.length rows) (List.length (list_intersection (tl_vars rows) vs))) eqn:L;
@@ -282,7 +294,7 @@ Proof.
   apply Nat.eqb_eq in L. split; [exact L|].
   destruct (gauss (list_intersection (tl_vars rows) vs) [] rows) as [pivots rest] eqn:G.
   exists pivots, rest. split; [reflexivity|].
-  destruct (forallb row_is_zero rest) eqn:Z; inversion H; subst; [left; split; reflexivity|right; reflexivity].
+  destruct (forallb row_is_zero rest) eqn:Z; inversion H; subst; [left; split; reflexivity|right; split; reflexivity].
 Qed.
 
 Lemma gstate_init rows : Forall wft rows -> gstate [] rows.
@@ -306,45 +318,49 @@ Proof.
   - intros [p [Hi ->]]. exists (v, p). split; [reflexivity|exact Hi].
 Qed.
 
-(* what the solver guarantees (both directions; [k = 0] is the reading "rows hold as equalities") *)
-Lemma solve_spec rows vs sols :
-  Forall wft rows -> solve_for_variables rows vs = inl sols ->
+(* what the elimination guarantees (both directions; [k = 0] is the reading "rows hold as equalities") *)
+Lemma gauss_sols_spec V rows pivots rest :
+  Forall wft rows -> NoDup V -> gauss V [] rows = (pivots, rest) ->
+  let sols := map sol_of pivots in
   (forall v s, In (v, s) sols -> wft s) /\
   NoDup (map fst sols) /\
-  (forall v, In v (map fst sols) -> In v vs /\ In v (tl_vars rows)) /\
+  (forall v, In v (map fst sols) -> In v V) /\
   (forall v s w, In (v, s) sols -> In w (map fst sols) -> gcR s w = 0) /\
-  (sols = [] \/
-   forall k r1 r2, dvs k r1 r2 rows <-> (forall v s, In (v, s) sols -> dv k r1 r2 s = r1 v - k * r2 v)).
+  (forall z, (forall r, In r rows -> gcR r z = 0) -> forall v s, In (v, s) sols -> gcR s z = 0) /\
+  (forall k r1 r2, dvs k r1 r2 rows <->
+     ((forall v s, In (v, s) sols -> dv k r1 r2 s = r1 v - k * r2 v) /\ dvs k r1 r2 rest)) /\
+  Forall wft rest /\
+  (forall r w, In r rest -> In w (map fst sols) -> gcR r w = 0) /\
+  (forall v, In v V -> ~ In v (map fst sols) -> forall r, In r rest -> gcR r v = 0) /\
+  (List.length rest + List.length sols = List.length rows)%nat.
 Proof.
-  intros Hw H. apply solve_unfold in H. cbv zeta in H. destruct H as [L [pivots [rest [G H]]]].
-  assert (HV : NoDup (list_intersection (tl_vars rows) vs)).
-  { apply NoDup_list_intersection. apply NoDup_tl_vars. exact Hw. }
+  intros Hw HV G. cbv zeta.
   destruct (gauss_spec _ _ _ _ _ G HV (fun _ _ F => F) (gstate_init rows Hw))
-    as [[Gwr Gwp Gnz Gind Grow Gnd] [G2 [G3 _]]].
-  destruct H as [[Z ->]| ->].
-  2:{ simpl. repeat split; try (intros; contradiction); [constructor|left; reflexivity]. }
-  rewrite map_fst_sol_of. split; [|split; [exact Gnd|split; [|split]]].
+    as [[Gwr Gwp Gnz Gind Grow Gnd] [G2 [G3 [_ [_ [G6 [G7 G8]]]]]]].
+  rewrite map_fst_sol_of. split; [|split; [exact Gnd|split; [|split; [|split; [|split]]]]].
   - intros v s Hi. apply in_sol_of in Hi. destruct Hi as [p [Hi ->]]. apply wft_solve_isolate. eapply Gwp. exact Hi.
-  - intros v Hv. apply G3 in Hv. destruct Hv as [[]|Hv]. apply in_list_intersection in Hv. tauto.
+  - intros v Hv. apply G3 in Hv. destruct Hv as [[]|Hv]. exact Hv.
   - intros v s w Hi Hw'. apply in_sol_of in Hi. destruct Hi as [p [Hi ->]].
     rewrite gcR_solve_isolate by (first [eapply Gwp|eapply Gnz]; exact Hi).
     destruct (String.eqb w v) eqn:E; [reflexivity|]. apply String.eqb_neq in E.
     rewrite (Gind v p w Hi Hw' E). field. eapply Gnz. exact Hi.
-  - right. intros k r1 r2. specialize (G2 k r1 r2). simpl in G2.
-    assert (Hrest : dvs k r1 r2 rest).
-    { intros r Hr. rewrite forallb_forall in Z. specialize (Z r Hr). unfold dv.
-      rewrite !(row_is_zero_ev r _ Z). lra. }
+  - intros z Hz v s Hi. apply in_sol_of in Hi. destruct Hi as [p [Hi ->]].
+    rewrite gcR_solve_isolate by (first [eapply Gwp|eapply Gnz]; exact Hi).
+    destruct (String.eqb z v); [reflexivity|].
+    rewrite (G8 z Hz (fun _ _ F => match F with end) v p Hi). field. eapply Gnz. exact Hi.
+  - intros k r1 r2. specialize (G2 k r1 r2). simpl in G2.
     assert (Hnil : dvs k r1 r2 []) by (intros r []).
     split.
-    + intros Hr v s Hi. apply in_sol_of in Hi. destruct Hi as [p [Hi ->]].
+    + intros Hr. destruct (proj1 G2 (conj Hnil Hr)) as [Hpiv Hrest]. split; [|exact Hrest].
+      intros v s Hi. apply in_sol_of in Hi. destruct Hi as [p [Hi ->]].
       assert (Hp : dv k r1 r2 p = 0).
-      { apply (proj1 (proj1 G2 (conj Hnil Hr))). apply in_map_iff. exists (v, p). auto. }
+      { apply Hpiv. apply in_map_iff. exists (v, p). auto. }
       unfold dv in *. rewrite !ev_solve_isolate by (first [eapply Gwp|eapply Gnz]; exact Hi).
       pose proof (Gnz v p Hi) as Ha.
       replace (r1 v - ev r1 p / gcR p v - k * (r2 v - ev r2 p / gcR p v))
         with (r1 v - k * r2 v - (ev r1 p - k * ev r2 p) / gcR p v) by (field; exact Ha).
       rewrite Hp. field. exact Ha.
-    + intros Hs. apply (proj2 G2). split; [|exact Hrest].
+    + intros [Hs Hrest]. apply (proj2 G2). split; [|exact Hrest].
       intros p Hp. apply in_map_iff in Hp. destruct Hp as [[v p'] [<- Hi]]. simpl.
       assert (Hi' : In (v, solve_isolate p' v) (map sol_of pivots)) by (apply in_sol_of; eauto).
       specialize (Hs _ _ Hi'). unfold dv in *.
@@ -355,6 +371,35 @@ Proof.
           with (ev r1 p' / gcR p' v - k * (ev r2 p' / gcR p' v)) by (field; exact Ha). lra. }
       replace (ev r1 p' - k * ev r2 p') with ((ev r1 p' - k * ev r2 p') / gcR p' v * gcR p' v) by (field; exact Ha).
       rewrite E0. lra.
+  - split; [exact Gwr|]. split; [exact Grow|]. split; [exact G6|].
+    rewrite map_length. simpl in G7. lia.
+Qed.
+
+Lemma dvs_zero_rows k r1 r2 rest : forallb row_is_zero rest = true -> dvs k r1 r2 rest.
+Proof.
+  intros Z r Hr. rewrite forallb_forall in Z. specialize (Z r Hr). unfold dv.
+  rewrite !(row_is_zero_ev r _ Z). lra.
+Qed.
+
+Lemma solve_spec rows vs sols :
+  Forall wft rows -> solve_for_variables rows vs = inl sols ->
+  (forall v s, In (v, s) sols -> wft s) /\
+  NoDup (map fst sols) /\
+  (forall v, In v (map fst sols) -> In v vs /\ In v (tl_vars rows)) /\
+  (forall v s w, In (v, s) sols -> In w (map fst sols) -> gcR s w = 0) /\
+  (forall z, (forall r, In r rows -> gcR r z = 0) -> forall v s, In (v, s) sols -> gcR s z = 0) /\
+  (sols = [] \/
+   forall k r1 r2, dvs k r1 r2 rows <-> (forall v s, In (v, s) sols -> dv k r1 r2 s = r1 v - k * r2 v)).
+Proof.
+  intros Hw H. apply solve_unfold in H. cbv zeta in H. destruct H as [L [pivots [rest [G H]]]].
+  assert (HV : NoDup (list_intersection (tl_vars rows) vs)).
+  { apply NoDup_list_intersection. apply NoDup_tl_vars. exact Hw. }
+  destruct H as [[Z ->]|[_ ->]].
+  2:{ simpl. repeat split; try (intros; contradiction); [constructor|left; reflexivity]. }
+  destruct (gauss_sols_spec _ rows pivots rest Hw HV G) as [S1 [S2 [S3 [S4 [S5 [S6 _]]]]]].
+  split; [exact S1|]. split; [exact S2|]. split; [|split; [exact S4|split; [exact S5|right]]].
+  - intros v Hv. apply S3 in Hv. apply in_list_intersection in Hv. tauto.
+  - intros k r1 r2. rewrite (S6 k r1 r2). pose proof (dvs_zero_rows k r1 r2 rest Z). tauto.
 Qed.
 
 (* M1 as stated: every solution of the rows (taken as equalities) satisfies the returned substitutions *)
@@ -363,7 +408,7 @@ Theorem solve_sound rows vs sols :
   forall rho, (forall r, In r rows -> lin rho (tvars r) = Q2R (tconst r)) ->
   forall v s, In (v, s) sols -> rho v = lin rho (tvars s) - Q2R (tconst s).
 Proof.
-  intros Hw H rho Hr v s Hi. destruct (solve_spec rows vs sols Hw H) as [_ [_ [_ [_ [->|E]]]]]; [destruct Hi|].
+  intros Hw H rho Hr v s Hi. destruct (solve_spec rows vs sols Hw H) as [_ [_ [_ [_ [_ [->|E]]]]]]; [destruct Hi|].
   assert (Hd : dvs 0 rho rho rows).
   { intros r Hin. unfold dv, ev. rewrite (Hr r Hin). lra. }
   apply (proj1 (E 0 rho rho)) with (v := v) (s := s) in Hd; [|exact Hi]. unfold dv, ev in Hd. lra.
@@ -374,8 +419,2006 @@ Theorem solve_complete rows vs sols :
   forall rho, (forall v s, In (v, s) sols -> rho v = lin rho (tvars s) - Q2R (tconst s)) ->
   forall r, In r rows -> lin rho (tvars r) = Q2R (tconst r).
 Proof.
-  intros Hw H Hne rho Hs r Hin. destruct (solve_spec rows vs sols Hw H) as [_ [_ [_ [_ [->|E]]]]]; [congruence|].
+  intros Hw H Hne rho Hs r Hin. destruct (solve_spec rows vs sols Hw H) as [_ [_ [_ [_ [_ [->|E]]]]]]; [congruence|].
   assert (Hd : dvs 0 rho rho rows).
   { apply (proj2 (E 0 rho rho)). intros v s Hi. unfold dv, ev. rewrite (Hs v s Hi). lra. }
   specialize (Hd r Hin). unfold dv, ev in Hd. lra.
 Qed.
+
+(* ------------------------------------------------------------------ *)
+(** * Statement shapes *)
+Definition refine_ok (helpers : list pterm) (t t' : pterm) : Prop :=
+  forall rho, sat_list rho helpers -> sat rho t' -> sat rho t.
+Definition relax_ok (helpers : list pterm) (t t' : pterm) : Prop :=
+  forall rho, sat_list rho helpers -> sat rho t -> sat rho t'.
+Definition dir_ok (refine : bool) (helpers : list pterm) (t t' : pterm) : Prop :=
+  if refine then refine_ok helpers t t' else relax_ok helpers t t'.
+
+(* the scratch variable of tactic 3 *)
+Definition us : var := "_"%string.
+(* a term is usable when its dict has distinct keys and it does not depend on "_" *)
+Definition good (t : pterm) : Prop := wft t /\ gcR t us = 0.
+(* ... and, for the term being transformed, no stored zero coefficient (what __init__ guarantees) *)
+Definition good' (t : pterm) : Prop := wft' t /\ gcR t us = 0.
+Lemma good'_good t : good' t -> good t.
+Proof. intros [[H _] H2]. split; assumption. Qed.
+
+Definition side (term : pterm) (ctx : list pterm) (vs : list var) : Prop :=
+  good' term /\ Forall good ctx /\ NoDup vs /\ ~ In us vs.
+
+(* a tactic is acceptable (for the invocation counts selected by P) when every term it returns is
+   well formed, independent of "_", and a refinement / relaxation in the context it was given *)
+Definition tactic_ok_on (P : nat -> Prop) (num : nat) : Prop :=
+  forall O, lp_spec 0 O -> forall term ctx vs refine t' cnt,
+    side term ctx vs ->
+    run_tactic O num term ctx vs refine = inl (Some t', cnt) -> P cnt ->
+    good t' /\ dir_ok refine ctx term t'.
+Definition tactic_ok (num : nat) : Prop := tactic_ok_on (fun _ => True) num.
+
+Lemma gcR_copy t v : wft t -> gcR (term_copy t) v = gcR t v.
+Proof. intros Ht. rewrite (gcR_slope _ v (wft_copy t Ht)), (gcR_slope t v Ht), !ev_copy. reflexivity. Qed.
+Lemma good_copy t : good t -> good (term_copy t).
+Proof. intros [H1 H2]. split; [apply wft_copy; exact H1|rewrite gcR_copy; assumption]. Qed.
+Lemma dir_ok_copy refine helpers t : dir_ok refine helpers t (term_copy t).
+Proof. destruct refine; intros rho _ H; apply (sat_copy rho t); exact H. Qed.
+
+(** ** tactic 6 (trivial) *)
+Theorem tactic_6_ok : tactic_ok 6.
+Proof.
+  intros O HO term ctx vs refine t' cnt [Hg _] H _. simpl in H. inversion H; subst.
+  split; [apply good_copy; apply good'_good; exact Hg|apply dir_ok_copy].
+Qed.
+
+(* ------------------------------------------------------------------ *)
+(** * M2: tactic 2 *)
+Definition zero_on (vs : list var) (rho : val) : val :=
+  fun w => if in_dec string_dec w vs then 0 else rho w.
+
+Lemma lin_diff rho rho' l vs :
+  NoDup (keys l) -> NoDup vs -> (forall w, ~ In w vs -> rho w = rho' w) ->
+  lin rho l - lin rho' l = sumf (fun v => Q2R (coef l v) * (rho v - rho' v)) vs.
+Proof.
+  intros Hl Hvs. revert rho'. induction Hvs as [|v vs Hv Hvs IH]; intros rho' Hag.
+  - rewrite (lin_ext_keys rho rho' l); [simpl; lra|]. intros x _. apply Hag. intros [].
+  - set (rho2 := fun w => if String.eqb w v then rho v else rho' w).
+    assert (H2 : lin rho l - lin rho2 l = sumf (fun w => Q2R (coef l w) * (rho w - rho2 w)) vs).
+    { apply IH. intros w Hw. unfold rho2. destruct (String.eqb w v) eqn:E.
+      - apply String.eqb_eq in E. subst. reflexivity.
+      - apply String.eqb_neq in E. apply Hag. intros [H|H]; [congruence|contradiction]. }
+    rewrite sumf_cons. assert (H3 : lin rho2 l = lin rho' l + Q2R (coef l v) * (rho v - rho' v))
+      by (apply (lin_update rho' v (rho v) l Hl)). rewrite H3 in H2.
+    rewrite (sumf_ext _ (fun w => Q2R (coef l w) * (rho w - rho' w))) in H2.
+    + lra.
+    + intros w Hw. unfold rho2. destruct (String.eqb w v) eqn:E; [|reflexivity].
+      apply String.eqb_eq in E. subst. contradiction.
+Qed.
+Lemma ev_diff rho rho' t vs :
+  wft t -> NoDup vs -> (forall w, ~ In w vs -> rho w = rho' w) ->
+  ev rho t - ev rho' t = sumf (fun v => gcR t v * (rho v - rho' v)) vs.
+Proof.
+  intros Ht Hvs Hag. unfold ev. pose proof (lin_diff rho rho' (tvars t) vs Ht Hvs Hag) as H.
+  rewrite (sumf_ext _ (fun v => Q2R (coef (tvars t) v) * (rho v - rho' v))); [lra|].
+  intros v _. unfold gcR. rewrite get_coefficient_coef. reflexivity.
+Qed.
+
+Lemma fold_remove_spec vs : forall t, wft t ->
+  wft (fold_left term_remove_variable vs t) /\
+  tconst (fold_left term_remove_variable vs t) = tconst t /\
+  forall rho, lin rho (tvars (fold_left term_remove_variable vs t)) = lin (zero_on vs rho) (tvars t).
+Proof.
+  induction vs as [|v vs IH]; intros t Ht; simpl.
+  - split; [exact Ht|]. split; [reflexivity|]. intros rho. apply lin_ext_keys. intros x _. reflexivity.
+  - destruct (IH (term_remove_variable t v) (wft_remove_variable t v Ht)) as [H1 [H2 H3]].
+    split; [exact H1|]. split; [rewrite H2; apply const_remove_variable|].
+    intros rho. rewrite H3, (lin_remove_variable _ t v Ht).
+    rewrite (lin_ext_keys (zero_on (v :: vs) rho) (fun w => if String.eqb w v then 0 else zero_on vs rho w)).
+    + rewrite (lin_update (zero_on vs rho) v 0 (tvars t) Ht), get_coefficient_coef. lra.
+    + intros x _. unfold zero_on. destruct (String.eqb x v) eqn:E.
+      * apply String.eqb_eq in E. subst. destruct (in_dec string_dec v (v :: vs)) as [|n]; [reflexivity|].
+        exfalso. apply n. left. reflexivity.
+      * apply String.eqb_neq in E. destruct (in_dec string_dec x (v :: vs)) as [[H|H]|n];
+          destruct (in_dec string_dec x vs) as [H'|n']; try reflexivity; try congruence; try contradiction.
+        exfalso. apply n. right. exact H'.
+Qed.
+
+Lemma in_list_union_gen {A} `{PyEq A} (x : A) l1 l2 : In x (list_union l1 l2) -> In x l1 \/ In x l2.
+Proof. unfold list_union. rewrite in_app_iff, filter_In. tauto. Qed.
+
+Lemma Forall_map_copy (P : pterm -> Prop) l :
+  (forall t, P t -> P (term_copy t)) -> Forall P l -> Forall P (map term_copy l).
+Proof. intros H Hl. apply Forall_forall. intros x Hx. apply in_map_iff in Hx. destruct Hx as [y [<- Hy]].
+  apply H. rewrite Forall_forall in Hl. apply Hl. exact Hy. Qed.
+Lemma sat_list_map_copy rho l : sat_list rho (map term_copy l) <-> sat_list rho l.
+Proof.
+  unfold sat_list. rewrite !Forall_forall. split.
+  - intros H t Ht. apply (sat_copy rho t). apply H. apply in_map. exact Ht.
+  - intros H t Ht. apply in_map_iff in Ht. destruct Ht as [y [<- Hy]]. apply (sat_copy rho y). apply H. exact Hy.
+Qed.
+
+Lemma tactic_2_spec O (HO : lp_spec 0 O) term ctx vs refine t' cnt :
+  wft term -> Forall wft ctx ->
+  tactic_2 O term ctx vs refine = inl (Some t', cnt) ->
+  wft t' /\ (forall z, ~ In z vs -> gcR t' z = gcR term z) /\ dir_ok refine ctx term t'.
+Proof.
+  intros Ht Hctx. unfold tactic_2. cbv zeta.
+  set (F := fun c => negb (nonempty (list_diff (term_vars_p c) vs)) && negb (term_eqb_p c term)).
+  remember (map term_copy (filter F ctx)) as nc eqn:Enc.
+  destruct nc as [|c0 nc']; [discriminate|]. set (nc := c0 :: nc') in *.
+  destruct (nonempty (list_diff (list_intersection vs (term_vars_p term)) (tl_vars nc))) eqn:D; [discriminate|].
+  set (vars := polytope_vars nc []).
+  set (pol := if refine then (-(1))%Q else 1%Q).
+  destruct (O (mkLP vars (map (fun v => qmul pol (get_coefficient term v)) vars) (map (term_to_row vars) nc))) eqn:EO;
+    try discriminate.
+  set (res := fold_left term_remove_variable vs (term_copy term)).
+  destruct (fold_remove_spec vs (term_copy term) (wft_copy term Ht)) as [Rw [Rc Rl]]. fold res in Rw, Rc, Rl.
+  assert (Copy : wft (term_copy term) /\ (forall z, ~ In z vs -> gcR (term_copy term) z = gcR term z) /\
+                 dir_ok refine ctx term (term_copy term)).
+  { split; [apply wft_copy; exact Ht|]. split; [intros; apply gcR_copy; exact Ht|apply dir_ok_copy]. }
+  destruct (negb (nonempty (term_vars_p (mkT (tvars res) (qsub (tconst res) (qmul pol fun_)))))).
+  { intros H. inversion H; subst. exact Copy. }
+  intros H. inversion H; subst t' cnt. clear H Copy.
+  (* facts about the extracted context *)
+  assert (Hncw : Forall wft nc).
+  { rewrite Enc. apply Forall_map_copy; [apply wft_copy|].
+    rewrite Forall_forall in *. intros x Hx. apply filter_In in Hx. apply Hctx. tauto. }
+  assert (Hncs : forall rho, sat_list rho ctx -> sat_list rho nc).
+  { intros rho Hs. rewrite Enc. apply sat_list_map_copy. unfold sat_list in *. rewrite Forall_forall in *.
+    intros x Hx. apply filter_In in Hx. apply Hs. tauto. }
+  assert (Hvars_vs : forall x, In x vars -> In x vs).
+  { intros x Hx. apply in_polytope_vars in Hx. destruct Hx as [c [[Hc|[]] Hx]].
+    rewrite Enc in Hc. apply in_map_iff in Hc. destruct Hc as [c1 [<- Hc1]]. apply in_vars_copy in Hx.
+    apply filter_In in Hc1. destruct Hc1 as [_ HF]. unfold F in HF. apply andb_true_iff in HF.
+    destruct HF as [HF _]. apply negb_true_iff in HF. apply nonempty_false in HF.
+    destruct (in_dec string_dec x vs) as [i|n]; [exact i|].
+    assert (Hin : In x (list_diff (term_vars_p c1) vs)) by (apply in_list_diff; tauto).
+    rewrite HF in Hin. destruct Hin. }
+  assert (Hconf : forall x, In x vs -> In x (term_vars_p term) -> In x vars).
+  { intros x H1 H2. apply nonempty_false in D.
+    destruct (in_dec string_dec x (tl_vars nc)) as [i|n].
+    - unfold vars, polytope_vars. apply in_list_union. left. exact i.
+    - assert (Hin : In x (list_diff (list_intersection vs (term_vars_p term)) (tl_vars nc))).
+      { apply in_list_diff. split; [apply in_list_intersection; tauto|exact n]. }
+      rewrite D in Hin. destruct Hin. }
+  assert (Hnd : NoDup vars) by (apply NoDup_polytope_vars; [exact Hncw|constructor]).
+  assert (Hcov : covered vars nc) by (apply covered_polytope_l; exact Hncw).
+  (* the LP bound *)
+  assert (Hbound : forall rho, sat_list rho ctx ->
+            Q2R fun_ <= Q2R pol * sumf (fun v => gcR term v * rho v) vars).
+  { intros rho Hs. pose proof (HO (mkLP vars (map (fun v => qmul pol (get_coefficient term v)) vars)
+                                       (map (term_to_row vars) nc))) as Hsp.
+    rewrite EO in Hsp. destruct Hsp as [_ Hlow].
+    specialize (Hlow (map rho vars)). cbn [lp_rows lp_obj] in Hlow. rewrite Q2R_0 in Hlow.
+    assert (Hd : dot (map (fun v => qmul pol (get_coefficient term v)) vars) (map rho vars)
+                 = Q2R pol * sumf (fun v => gcR term v * rho v) vars).
+    { rewrite dot_fold. rewrite <- sumf_scale. apply sumf_ext. intros v _. rewrite Q2R_qmul. unfold gcR. lra. }
+    rewrite Hd in Hlow. assert (Hl : Q2R fun_ - 0 <= Q2R pol * sumf (fun v => gcR term v * rho v) vars).
+    { apply Hlow.
+      - unfold point_of, dim. cbn [lp_obj]. rewrite !map_length. reflexivity.
+      - apply (feas_sat vars nc rho Hnd Hcov). apply Hncs. exact Hs. }
+    lra. }
+  (* the removed part *)
+  assert (Hrem : forall rho, lin rho (tvars res) = lin rho (tvars term) - sumf (fun v => gcR term v * rho v) vars).
+  { intros rho. rewrite Rl. unfold term_copy. rewrite lin_mk_term.
+    rewrite (lin_ext_keys (zero_on vs rho) (zero_on vars rho) (tvars term)).
+    - pose proof (lin_diff rho (zero_on vars rho) (tvars term) vars Ht Hnd) as Hdf.
+      rewrite (sumf_ext _ (fun v => gcR term v * rho v)) in Hdf.
+      + rewrite <- Hdf; [lra|]. intros w Hw. unfold zero_on. destruct (in_dec string_dec w vars); [contradiction|reflexivity].
+      + intros v Hv. unfold zero_on, gcR. destruct (in_dec string_dec v vars); [|contradiction].
+        rewrite get_coefficient_coef. lra.
+    - intros x Hx. unfold zero_on. destruct (in_dec string_dec x vs) as [i|n]; destruct (in_dec string_dec x vars) as [i'|n'];
+        try reflexivity.
+      + exfalso. apply n'. apply Hconf; assumption.
+      + exfalso. apply n. apply Hvars_vs. exact i'. }
+  split; [exact Rw|]. split.
+  - intros z Hz. assert (Hw' : wft (mkT (tvars res) (qsub (tconst res) (qmul pol fun_)))) by exact Rw.
+    rewrite (gcR_slope _ z Hw'), (gcR_slope term z Ht). unfold ev. cbn [tvars tconst]. rewrite !Hrem.
+    rewrite (sumf_ext (fun v => gcR term v * upd (fun _ => 0) z 1 v) (fun v => gcR term v * 0)); [lra|].
+    intros v Hv. rewrite upd_other; [reflexivity|]. intros ->. apply Hz. apply Hvars_vs. exact Hv.
+  - assert (Hc : Q2R (qsub (tconst res) (qmul pol fun_)) = Q2R (tconst term) - Q2R pol * Q2R fun_).
+    { rewrite Q2R_qsub, Q2R_qmul, Rc. unfold term_copy. rewrite mk_term_const. reflexivity. }
+    destruct refine; intros rho Hs; specialize (Hbound rho Hs); unfold sat; cbn [tvars tconst];
+      rewrite Hc, Hrem; unfold pol in *.
+    + assert (Q2R (- (1)) = -1) as E by (unfold Q2R; simpl; lra). rewrite E in *. lra.
+    + rewrite Q2R_1 in *. lra.
+Qed.
+
+Lemma side_good term ctx vs : side term ctx vs -> wft term /\ Forall wft ctx.
+Proof.
+  intros [[[Ht _] _] [Hc _]]. split; [exact Ht|]. rewrite Forall_forall in *. intros x Hx. apply Hc. exact Hx.
+Qed.
+
+Theorem tactic_2_ok : tactic_ok 2.
+Proof.
+  intros O HO term ctx vs refine t' cnt Hs H _. destruct (side_good _ _ _ Hs) as [Ht Hc].
+  destruct Hs as [[_ Hu] [_ [_ Hv]]]. simpl in H.
+  destruct (tactic_2_spec O HO term ctx vs refine t' cnt Ht Hc H) as [H1 [H2 H3]].
+  split; [|exact H3]. split; [exact H1|]. rewrite (H2 us Hv). exact Hu.
+Qed.
+
+(* ------------------------------------------------------------------ *)
+(** * M6: the dispatcher and the term-list loop *)
+Lemma ttl_spec O order term ctx vs refine r num cnt :
+  transform_term_loop O order term ctx vs refine = inl (r, num, cnt) ->
+  r = term_copy term \/ exists n c, In n order /\ run_tactic O n term ctx vs refine = inl (Some r, c).
+Proof.
+  induction order as [|n order IH]; simpl; intros H.
+  - inversion H. left. reflexivity.
+  - destruct (run_tactic O n term ctx vs refine) as [[[rt|] c]|e] eqn:R.
+    + inversion H; subst. right. exists n, c. split; [left; reflexivity|exact R].
+    + destruct (IH H) as [Hc|[n' [c' [Hi Hr]]]]; [left; exact Hc|right; exists n', c'; split; [right; exact Hi|exact Hr]].
+    + destruct (is_value_error e); [|discriminate].
+      destruct (IH H) as [Hc|[n' [c' [Hi Hr]]]]; [left; exact Hc|right; exists n', c'; split; [right; exact Hi|exact Hr]].
+Qed.
+
+Definition helpers_of (ctx done : list pterm) (t : pterm) (todo' : list pterm) : list pterm :=
+  list_union ctx (remove_first_term t (map term_copy (done ++ map term_copy (t :: todo')))).
+
+Inductive tl_rel (refine : bool) (ctx : list pterm) : list pterm -> list pterm -> list pterm -> Prop :=
+| tl_nil done : tl_rel refine ctx done [] []
+| tl_cons done t todo' n news :
+    good n -> dir_ok refine (helpers_of ctx done t todo') t n ->
+    tl_rel refine ctx (done ++ [n]) todo' news -> tl_rel refine ctx done (t :: todo') (n :: news).
+
+Lemma in_remove_first_gen {A} `{PyEq A} (x y : A) l : In x (remove_first y l) -> In x l.
+Proof.
+  induction l as [|z r IH]; simpl; [tauto|]. destruct (py_eqb z y); [tauto|]. intros [->|Hx]; [left; reflexivity|right; apply IH; exact Hx].
+Qed.
+
+Lemma in_helpers ctx done t todo' x :
+  In x (helpers_of ctx done t todo') ->
+  In x ctx \/ (exists d, In d done /\ x = term_copy d) \/ (exists d, In d (t :: todo') /\ x = term_copy (term_copy d)).
+Proof.
+  unfold helpers_of, remove_first_term. intros H. apply in_list_union_gen in H. destruct H as [H|H]; [left; exact H|right].
+  apply in_remove_first_gen in H. rewrite map_app, map_map, in_app_iff, !in_map_iff in H.
+  destruct H as [[d [<- Hd]]|[d [<- Hd]]]; [left|right]; exists d; auto.
+Qed.
+Lemma good_helpers ctx done t todo' :
+  Forall good ctx -> Forall good done -> Forall good (t :: todo') -> Forall good (helpers_of ctx done t todo').
+Proof.
+  intros Hc Hd Ht. rewrite Forall_forall in *. intros x Hx. apply in_helpers in Hx.
+  destruct Hx as [Hx|[[d [Hi ->]]|[d [Hi ->]]]]; [apply Hc; exact Hx|apply good_copy; apply Hd; exact Hi|].
+  apply good_copy, good_copy. apply Ht. exact Hi.
+Qed.
+Lemma sat_helpers ctx done t todo' rho :
+  sat_list rho ctx -> sat_list rho done -> sat_list rho (t :: todo') -> sat_list rho (helpers_of ctx done t todo').
+Proof.
+  unfold sat_list. intros Hc Hd Ht. rewrite Forall_forall in *. intros x Hx. apply in_helpers in Hx.
+  destruct Hx as [Hx|[[d [Hi ->]]|[d [Hi ->]]]]; [apply Hc; exact Hx|apply sat_copy; apply Hd; exact Hi|].
+  apply sat_copy, sat_copy. apply Ht. exact Hi.
+Qed.
+
+Section Loop.
+Variable O : oracle.
+Variable order : list nat.
+Hypothesis Hord : forall num, In num order -> tactic_ok num.
+Hypothesis HO : lp_spec 0 O.
+Variables (ctx : list pterm) (vs : list var) (refine : bool).
+Hypothesis Hctx : Forall good ctx.
+Hypothesis Hvs : NoDup vs.
+Hypothesis Hus : ~ In us vs.
+
+Lemma transform_term_good t helpers nt num cnt :
+  good' t -> Forall good helpers ->
+  transform_term O order t helpers vs refine = inl (nt, num, cnt) ->
+  good nt /\ dir_ok refine helpers t nt.
+Proof.
+  intros Ht Hh. unfold transform_term. destruct (negb _); [discriminate|]. intros H.
+  apply ttl_spec in H. destruct H as [->|[n [c [Hi Hr]]]].
+  - split; [apply good_copy, good'_good; exact Ht|apply dir_ok_copy].
+  - apply (Hord n Hi O HO t helpers vs refine nt c); [|exact Hr|exact I].
+    split; [exact Ht|]. split; [exact Hh|]. split; assumption.
+Qed.
+
+Lemma transform_loop_inv : forall todo done used res st,
+  Forall good done -> Forall good' todo ->
+  transform_loop O order ctx vs refine done todo used = inl (res, st) ->
+  exists news, res = done ++ news /\ tl_rel refine ctx done todo news.
+Proof.
+  induction todo as [|t todo' IH]; intros done used res st Hd Ht H.
+  - simpl in H. inversion H; subst. exists []. split; [rewrite app_nil_r; reflexivity|constructor].
+  - inversion Ht as [|? ? Ht1 Ht2]; subst.
+    assert (Hgt : Forall good (t :: todo')).
+    { apply Forall_forall. intros x Hx. apply good'_good. rewrite Forall_forall in Ht. apply Ht. exact Hx. }
+    assert (Step : forall n used', good n -> dir_ok refine (helpers_of ctx done t todo') t n ->
+               transform_loop O order ctx vs refine (done ++ [n]) todo' used' = inl (res, st) ->
+               exists news, res = done ++ news /\ tl_rel refine ctx done (t :: todo') news).
+    { intros n used' Hn Hdir H'. destruct (IH (done ++ [n]) used' res st) as [news [E R]]; [|exact Ht2|exact H'|].
+      - apply Forall_app. split; [exact Hd|constructor; [exact Hn|constructor]].
+      - exists (n :: news). split; [rewrite E, <- app_assoc; reflexivity|]. constructor; assumption. }
+    simpl in H. destruct (nonempty (list_intersection (term_vars_p t) vs)).
+    + change (list_union ctx (remove_first_term t (map term_copy (done ++ term_copy t :: map term_copy todo'))))
+        with (helpers_of ctx done t todo') in H.
+      destruct (transform_term O order t (helpers_of ctx done t todo') vs refine) as [[[nt num] cnt]|e] eqn:TT.
+      * simpl in H. destruct (transform_term_good t _ nt num cnt Ht1 (good_helpers ctx done t todo' Hctx Hd Hgt) TT) as [G1 G2].
+        eapply Step; eassumption.
+      * destruct (is_value_error e); [|discriminate]. simpl in H.
+        eapply Step; [apply good_copy, good'_good; exact Ht1|apply dir_ok_copy|exact H].
+    + eapply Step; [apply good_copy, good'_good; exact Ht1|apply dir_ok_copy|exact H].
+Qed.
+End Loop.
+
+Lemma tl_rel_good refine ctx done todo news : tl_rel refine ctx done todo news -> Forall good news.
+Proof. induction 1; constructor; assumption. Qed.
+
+Lemma remove_first_app_notin (t : pterm) A B :
+  existsb (fun z => term_eqb_p z t) A = false -> remove_first t (A ++ B) = A ++ remove_first t B.
+Proof.
+  induction A as [|a A IH]; simpl; [reflexivity|]. rewrite orb_false_iff. intros [H1 H2].
+  rewrite H1. f_equal. apply IH. exact H2.
+Qed.
+
+Lemma tl_rel_refine ctx done todo news :
+  tl_rel true ctx done todo news -> Forall good done -> Forall good' todo ->
+  forall rho, sat_list rho ctx -> sat_list rho done -> sat_list rho news -> sat_list rho todo.
+Proof.
+  induction 1 as [done|done t todo' n news Hn Hdir Hrel IH]; intros Hd Ht rho Hc Hsd Hsn; [constructor|].
+  inversion Ht as [|? ? Ht1 Ht2]; subst. inversion Hsn as [|? ? Hs1 Hs2]; subst.
+  assert (Hd' : Forall good (done ++ [n])) by (apply Forall_app; split; [exact Hd|constructor; [exact Hn|constructor]]).
+  assert (Hsd' : sat_list rho (done ++ [n])) by (apply Forall_app; split; [exact Hsd|constructor; [exact Hs1|constructor]]).
+  specialize (IH Hd' Ht2 rho Hc Hsd' Hs2). constructor; [|exact IH].
+  destruct Ht1 as [[Htw Htnz] _].
+  destruct (existsb (fun z => term_eqb_p z t) (map term_copy done)) eqn:E.
+  - (* an earlier result equals t: the term's own copy stays among the helpers, but t holds anyway *)
+    apply existsb_exists in E. destruct E as [z [Hz Ez]]. apply in_map_iff in Hz. destruct Hz as [d [<- Hdin]].
+    assert (Hdg : good d) by (rewrite Forall_forall in Hd; apply Hd; exact Hdin).
+    apply (term_eqb_sat (term_copy d) t (wft_copy d (proj1 Hdg)) Htw Ez rho).
+    apply sat_copy. unfold sat_list in Hsd. rewrite Forall_forall in Hsd. apply Hsd. exact Hdin.
+  - apply (Hdir rho); [|exact Hs1].
+    unfold helpers_of, remove_first_term. rewrite map_app, (remove_first_app_notin t _ _ E).
+    cbn [map]. rewrite (term_copy_id t Htnz), (term_copy_id t Htnz). cbn [remove_first].
+    change (py_eqb t t) with (term_eqb_p t t). rewrite (term_eqb_refl t Htw).
+    unfold sat_list. apply Forall_forall. intros x Hx. apply in_list_union_gen in Hx.
+    destruct Hx as [Hx|Hx]; [unfold sat_list in Hc; rewrite Forall_forall in Hc; apply Hc; exact Hx|].
+    apply in_app_iff in Hx. destruct Hx as [Hx|Hx].
+    + apply in_map_iff in Hx. destruct Hx as [d [<- Hdin]]. apply sat_copy.
+      unfold sat_list in Hsd. rewrite Forall_forall in Hsd. apply Hsd. exact Hdin.
+    + rewrite map_map in Hx. apply in_map_iff in Hx. destruct Hx as [d [<- Hdin]]. apply sat_copy, sat_copy.
+      unfold sat_list in IH. rewrite Forall_forall in IH. apply IH. exact Hdin.
+Qed.
+
+Lemma tl_rel_relax ctx done todo news :
+  tl_rel false ctx done todo news ->
+  forall rho, sat_list rho ctx -> sat_list rho done -> sat_list rho todo -> sat_list rho news.
+Proof.
+  induction 1 as [done|done t todo' n news Hn Hdir Hrel IH]; intros rho Hc Hsd Hst; [constructor|].
+  assert (Hs : sat rho n).
+  { apply (Hdir rho); [apply sat_helpers; assumption|]. inversion Hst; assumption. }
+  constructor; [exact Hs|]. apply IH; [exact Hc| |inversion Hst; assumption].
+  apply Forall_app. split; [exact Hsd|constructor; [exact Hs|constructor]].
+Qed.
+
+(* simplification is an equivalence in its context; unlike proofs/PolyFacts.simplify_equiv this does not
+   ask every term to mention a variable (tactic results may be constant-only) *)
+Lemma simplify_equiv_wft O (HO : lp_spec 0 O) ts c r :
+  Forall wft ts -> Forall wft c -> poly_simplify O ts (Some c) = inl r ->
+  forall rho, sat_list rho c -> (sat_list rho r <-> sat_list rho ts).
+Proof.
+  intros Hts Hc H rho Hs.
+  set (ctx := Some c) in *. set (vs := simp_vars ts ctx). set (ns := new_self ts ctx).
+  assert (Hns : Forall wft ns).
+  { rewrite Forall_forall in *. intros x Hx. apply Hts. apply (incl_new_self ts ctx). exact Hx. }
+  assert (Hnd : NoDup vs) by (apply NoDup_polytope_vars; assumption).
+  assert (Cns : covered vs ns) by (apply covered_polytope_l; exact Hns).
+  assert (Cc : covered vs c) by (apply (covered_polytope_r ns c); exact Hc).
+  rewrite <- (sat_new_self ts ctx rho Hts Hc Hs). fold ns.
+  rewrite poly_simplify_unfold in H. fold vs ns in H. cbn [opt_list ctx] in H.
+  destruct vs as [|v0 vs'] eqn:Evs.
+  - destruct c as [|c0 c']; [|discriminate]. destruct ns as [|t [|t' ns']]; try discriminate.
+    + inversion H. tauto.
+    + inversion H. change [row_to_term [] (term_to_row [] t)] with (map (roundtrip []) [t]).
+      apply sat_list_roundtrip; assumption.
+  - rewrite <- Evs in *. apply bind_inl in H. destruct H as [red [H Hr]]. inversion Hr; subst r.
+    pose proof (reduce_polytope_subseq _ _ _ _ _ H) as Hsub.
+    apply subseq_map_inv in Hsub. destruct Hsub as [sub [Hss Er]].
+    rewrite <- (feas_sat vs ns rho Hnd Cns).
+    rewrite <- (reduce_polytope_equiv O HO (List.length vs) vs _ _ red (wf_rows_terms vs ns) H (map rho vs)).
+    + rewrite Er, map_roundtrip. rewrite sat_list_roundtrip.
+      * symmetry. apply feas_sat; [exact Hnd|]. eapply covered_incl; [apply subseq_incl; exact Hss|exact Cns].
+      * exact Hnd.
+      * eapply covered_incl; [apply subseq_incl; exact Hss|exact Cns].
+    + apply map_length.
+    + apply feas_sat; assumption.
+Qed.
+
+Lemma NoDup_keys_combine (vs : list var) (l : list Q) : NoDup vs -> NoDup (keys (combine vs l)).
+Proof.
+  intros H. revert l. induction H as [|v vs Hv Hn IH]; intros [|q l]; simpl; try constructor; [|apply IH].
+  intros Hi. apply Hv. apply in_keys_ex in Hi. destruct Hi as [q' Hq]. apply in_combine_l in Hq. exact Hq.
+Qed.
+Lemma good'_roundtrip vs t :
+  NoDup vs -> (forall x, In x (term_vars_p t) -> In x vs) -> gcR t us = 0 -> good' (roundtrip vs t).
+Proof.
+  intros Hn Hc Hu. split.
+  - unfold roundtrip, row_to_term. apply wft'_mk_term. apply NoDup_keys_combine. exact Hn.
+  - unfold gcR in *. rewrite (Qeq_eqR _ _ (roundtrip_coefficient vs t us Hc)). exact Hu.
+Qed.
+Lemma simplify_good' O ts c r :
+  Forall good ts -> Forall good c -> poly_simplify O ts (Some c) = inl r -> Forall good' r.
+Proof.
+  intros Hts Hc H. apply simplify_selection in H. destruct H as [sub [Hs ->]].
+  change (list_diff ts c) with (new_self ts (Some c)) in Hs.
+  apply Forall_forall. intros x Hx. apply in_map_iff in Hx. destruct Hx as [t [<- Ht]].
+  assert (Hin : In t (new_self ts (Some c))) by (eapply subseq_incl; [exact Hs|exact Ht]).
+  assert (Hg : good t) by (rewrite Forall_forall in Hts; apply Hts; apply (incl_new_self ts (Some c)); exact Hin).
+  apply good'_roundtrip.
+  - apply NoDup_polytope_vars.
+    + rewrite Forall_forall in *. intros y Hy. apply Hts. apply (incl_new_self ts (Some c)). exact Hy.
+    + rewrite Forall_forall in *. intros y Hy. apply Hc. exact Hy.
+  - intros y Hy. apply in_polytope_vars. exists t. tauto.
+  - apply Hg.
+Qed.
+
+Lemma as_value_error_inl {A} (m : M A) a : as_value_error m = inl a -> m = inl a.
+Proof. destruct m as [x|e]; simpl; [tauto|]. destruct (is_value_error e); discriminate. Qed.
+
+Lemma Forall_good_wft l : Forall good l -> Forall wft l.
+Proof. intros H. rewrite Forall_forall in *. intros x Hx. apply H. exact Hx. Qed.
+Lemma Forall_good'_good l : Forall good' l -> Forall good l.
+Proof. intros H. rewrite Forall_forall in *. intros x Hx. apply good'_good. apply H. exact Hx. Qed.
+
+Section Transform.
+Variable O : oracle.
+Variable order : list nat.
+Hypothesis HO : lp_spec 0 O.
+Hypothesis Hord : forall num, In num order -> tactic_ok num.
+Variables (ctx : list pterm) (vs : list var).
+Hypothesis Hctx : Forall good ctx.
+Hypothesis Hvs : NoDup vs.
+Hypothesis Hus : ~ In us vs.
+
+Lemma transform_spec self refine sp r st :
+  Forall good' self -> transform O self ctx vs refine sp order = inl (r, st) ->
+  exists that, tl_rel refine ctx [] self that /\
+               (if sp then poly_simplify O that (Some ctx) = inl r else r = that).
+Proof.
+  intros Hself H. unfold transform in H. apply bind_inl in H. destruct H as [[that used] [H1 H2]].
+  destruct (transform_loop_inv O order Hord HO ctx vs refine Hctx Hvs Hus self [] [] that used (Forall_nil _) Hself H1)
+    as [news [E R]]. simpl in E. subst news. exists that. split; [exact R|].
+  destruct sp.
+  - apply bind_inl in H2. destruct H2 as [r' [H2 H3]]. inversion H3; subst. exact H2.
+  - inversion H2. reflexivity.
+Qed.
+
+Theorem transform_refine_sound self sp r st :
+  Forall good' self -> transform O self ctx vs true sp order = inl (r, st) ->
+  forall rho, sat_list rho ctx -> sat_list rho r -> sat_list rho self.
+Proof.
+  intros Hself H rho Hc Hr. destruct (transform_spec self true sp r st Hself H) as [that [R F]].
+  apply (tl_rel_refine ctx [] self that R (Forall_nil _) Hself rho Hc (Forall_nil _)).
+  destruct sp; [|subst; exact Hr].
+  apply (simplify_equiv_wft O HO that ctx r (Forall_good_wft _ (tl_rel_good _ _ _ _ _ R)) (Forall_good_wft _ Hctx) F rho Hc).
+  exact Hr.
+Qed.
+
+Theorem transform_relax_sound self sp r st :
+  Forall good' self -> transform O self ctx vs false sp order = inl (r, st) ->
+  forall rho, sat_list rho ctx -> sat_list rho self -> sat_list rho r.
+Proof.
+  intros Hself H rho Hc Hs. destruct (transform_spec self false sp r st Hself H) as [that [R F]].
+  pose proof (tl_rel_relax ctx [] self that R rho Hc (Forall_nil _) Hs) as Ht.
+  destruct sp; [|subst; exact Ht].
+  apply (simplify_equiv_wft O HO that ctx r (Forall_good_wft _ (tl_rel_good _ _ _ _ _ R)) (Forall_good_wft _ Hctx) F rho Hc).
+  exact Ht.
+Qed.
+
+Lemma transform_good self refine sp r st :
+  Forall good' self -> transform O self ctx vs refine sp order = inl (r, st) -> Forall good r.
+Proof.
+  intros Hself H. destruct (transform_spec self refine sp r st Hself H) as [that [R F]].
+  pose proof (tl_rel_good _ _ _ _ _ R) as Hg. destruct sp; [|subst; exact Hg].
+  apply Forall_good'_good. apply (simplify_good' O that ctx r Hg Hctx F).
+Qed.
+
+(** ** C04 *)
+Theorem C04_refine self sp r st :
+  Forall good' self ->
+  elim_vars_by_refining O self ctx vs sp order = inl (r, st) ->
+  forall rho, sat_list rho ctx -> sat_list rho r -> sat_list rho self.
+Proof.
+  intros Hself H rho Hc Hr. unfold elim_vars_by_refining in H. apply bind_inl in H. destruct H as [tl [H1 H2]].
+  apply as_value_error_inl in H2. destruct sp.
+  - apply as_value_error_inl in H1.
+    apply (simplify_equiv_wft O HO self ctx tl (Forall_good_wft _ (Forall_good'_good _ Hself)) (Forall_good_wft _ Hctx) H1 rho Hc).
+    apply (transform_refine_sound tl true r st); try assumption.
+    eapply simplify_good'; [apply Forall_good'_good; exact Hself|exact Hctx|exact H1].
+  - inversion H1; subst tl. apply (transform_refine_sound self false r st); assumption.
+Qed.
+
+Lemma map_copy_good' l : Forall good' l -> map term_copy l = l.
+Proof.
+  induction 1 as [|t l [[_ Hnz] _] Hl IH]; simpl; [reflexivity|]. rewrite IH, (term_copy_id t Hnz). reflexivity.
+Qed.
+
+Theorem C04_relax self sp r st :
+  Forall good' self ->
+  elim_vars_by_relaxing O self ctx vs sp order = inl (r, st) ->
+  (forall rho, sat_list rho ctx -> sat_list rho self -> sat_list rho r) /\
+  (forall t v, In t r -> In v vs -> ~ In v (term_vars_p t)).
+Proof.
+  intros Hself H. unfold elim_vars_by_relaxing in H. apply bind_inl in H. destruct H as [tl [H1 H2]].
+  apply bind_inl in H2. destruct H2 as [[tl2 used] [H2 H3]]. apply as_value_error_inl in H2.
+  inversion H3; subst r st. clear H3.
+  assert (Htl : Forall good' tl /\ forall rho, sat_list rho ctx -> sat_list rho self -> sat_list rho tl).
+  { destruct sp.
+    - apply as_value_error_inl in H1. split.
+      + eapply simplify_good'; [apply Forall_good'_good; exact Hself|exact Hctx|exact H1].
+      + intros rho Hc Hs.
+        apply (simplify_equiv_wft O HO self ctx tl (Forall_good_wft _ (Forall_good'_good _ Hself)) (Forall_good_wft _ Hctx) H1 rho Hc).
+        exact Hs.
+    - inversion H1; subst tl. rewrite (map_copy_good' self Hself). split; [exact Hself|tauto]. }
+  destruct Htl as [Hg Hsem]. split.
+  - intros rho Hc Hs. pose proof (transform_relax_sound tl sp tl2 used Hg H2 rho Hc (Hsem rho Hc Hs)) as Ht.
+    unfold sat_list, list_diff in *. rewrite Forall_forall in *. intros x Hx. apply filter_In in Hx. apply Ht. tauto.
+  - intros t v Ht Hv Hin. unfold list_diff in Ht. apply filter_In in Ht. destruct Ht as [Ht Hnot].
+    apply negb_true_iff in Hnot.
+    assert (Hw : wft t).
+    { pose proof (transform_good tl false sp tl2 used Hg H2) as G. rewrite Forall_forall in G. apply G. exact Ht. }
+    assert (Hp : py_in t (filter (fun t0 => nonempty (list_intersection (term_vars_p t0) vs)) tl2) = true).
+    { unfold py_in. apply existsb_exists. exists t. split.
+      - apply filter_In. split; [exact Ht|]. apply nonempty_true. intros E.
+        assert (Hi : In v (list_intersection (term_vars_p t) vs)) by (apply in_list_intersection; tauto).
+        rewrite E in Hi. destruct Hi.
+      - change (py_eqb t t) with (term_eqb_p t t). apply term_eqb_refl. exact Hw. }
+    rewrite Hp in Hnot. discriminate.
+Qed.
+End Transform.
+
+(* ------------------------------------------------------------------ *)
+(** * M3: context reduction (tactics 1, 3, 5): substituting the solver's answer *)
+Fixpoint upds (rho0 rho : val) (sols : list (var * pterm)) : val :=
+  match sols with
+  | [] => rho
+  | (v, s) :: r => upd (upds rho0 rho r) v (ev rho0 s)
+  end.
+
+Lemma ev_upds_indep rho0 rho sols t :
+  wft t -> (forall w, In w (map fst sols) -> gcR t w = 0) -> ev (upds rho0 rho sols) t = ev rho t.
+Proof.
+  intros Ht. induction sols as [|[v s] r IH]; intros H; simpl; [reflexivity|].
+  rewrite (ev_upd _ t v _ Ht), (H v) by (left; reflexivity). rewrite IH; [lra|].
+  intros w Hw. apply H. right. exact Hw.
+Qed.
+Lemma upds_notin rho0 rho sols w : ~ In w (map fst sols) -> upds rho0 rho sols w = rho w.
+Proof.
+  induction sols as [|[v s] r IH]; intros H; simpl; [reflexivity|].
+  rewrite upd_other; [apply IH|]; intros E; apply H; [right; exact E|left; symmetry; exact E].
+Qed.
+Lemma upds_in rho0 rho sols v s : NoDup (map fst sols) -> In (v, s) sols -> upds rho0 rho sols v = ev rho0 s.
+Proof.
+  induction sols as [|[v' s'] r IH]; intros Hn Hi; [destruct Hi|]. simpl in *.
+  inversion Hn as [|? ? Hv Hn']; subst. destruct Hi as [E|Hi].
+  - inversion E; subst. apply upd_same.
+  - rewrite upd_other; [apply IH; assumption|]. intros ->. apply Hv. apply in_map_iff. exists (v', s). auto.
+Qed.
+
+Definition subst_all (sols : list (var * pterm)) (t0 : pterm) : pterm :=
+  fold_left (fun res kv => term_substitute_variable res (fst kv) (snd kv)) sols t0.
+
+Lemma subst_all_spec sols : forall t0,
+  wft t0 -> (forall v s, In (v, s) sols -> wft s) ->
+  (forall v s w, In (v, s) sols -> In w (map fst sols) -> gcR s w = 0) ->
+  wft (subst_all sols t0) /\ forall rho, ev rho (subst_all sols t0) = ev (upds rho rho sols) t0.
+Proof.
+  induction sols as [|[v s] r IH]; intros t0 Ht Hw Hind; simpl.
+  - split; [exact Ht|reflexivity].
+  - assert (Hs : wft s) by (eapply Hw; left; reflexivity).
+    destruct (IH (term_substitute_variable t0 v s)) as [H1 H2].
+    + apply wft_substitute_variable; assumption.
+    + intros v' s' Hi. eapply Hw. right. exact Hi.
+    + intros v' s' w Hi Hin. eapply Hind; [right; exact Hi|right; exact Hin].
+    + split; [exact H1|]. intros rho. unfold subst_all in *. cbn [fold_left fst snd]. rewrite H2.
+      rewrite ev_subst_upd by assumption. rewrite ev_upds_indep; [reflexivity|exact Hs|].
+      intros w Hin. eapply Hind; [left; reflexivity|right; exact Hin].
+Qed.
+Lemma gcR_subst_all_zero sols z : forall t0,
+  wft t0 -> (forall v s, In (v, s) sols -> wft s) ->
+  gcR t0 z = 0 -> (forall v s, In (v, s) sols -> gcR s z = 0) -> gcR (subst_all sols t0) z = 0.
+Proof.
+  induction sols as [|[v s] r IH]; intros t0 Ht Hw H0 Hs; simpl; [exact H0|].
+  assert (Hws : wft s) by (eapply Hw; left; reflexivity).
+  apply IH.
+  - apply wft_substitute_variable; assumption.
+  - intros v' s' Hi. eapply Hw. right. exact Hi.
+  - rewrite gcR_subst by assumption. pose proof (Hs v s (or_introl eq_refl)) as Hsz.
+    destruct (String.eqb z v) eqn:E; [apply String.eqb_eq in E; subst z; rewrite Hsz; lra|rewrite Hsz, H0; lra].
+  - intros v' s' Hi. eapply Hs. right. exact Hi.
+Qed.
+(* a solved variable disappears *)
+Lemma gcR_subst_all_solved sols z : forall t0,
+  wft t0 -> (forall v s, In (v, s) sols -> wft s) ->
+  In z (map fst sols) -> (forall v s, In (v, s) sols -> gcR s z = 0) -> gcR (subst_all sols t0) z = 0.
+Proof.
+  induction sols as [|[v s] r IH]; intros t0 Ht Hw Hz Hs; [destruct Hz|]. simpl.
+  assert (Hws : wft s) by (eapply Hw; left; reflexivity).
+  assert (Hw' : forall v' s', In (v', s') r -> wft s') by (intros v' s' Hi; eapply Hw; right; exact Hi).
+  assert (Hs' : forall v' s', In (v', s') r -> gcR s' z = 0) by (intros v' s' Hi; eapply Hs; right; exact Hi).
+  assert (Hwt : wft (term_substitute_variable t0 v s)) by (apply wft_substitute_variable; assumption).
+  destruct (string_dec v z) as [->|Hne].
+  - apply gcR_subst_all_zero; try assumption.
+    rewrite gcR_subst by assumption. rewrite String.eqb_refl, (Hs z s) by (left; reflexivity). lra.
+  - apply IH; try assumption. simpl in Hz. destruct Hz as [Hz|Hz]; [contradiction|exact Hz].
+Qed.
+
+Lemma sumf_sumn (f : var -> R) l : sumf f l = sumn (List.length l) (fun j => f (nth j l ""%string)).
+Proof.
+  induction l as [|x l IH]; [reflexivity|]. cbn [List.length]. rewrite sumn_shift, sumf_cons, IH. reflexivity.
+Qed.
+
+Definition tcR (refine : bool) : R := if refine then 1 else -1.
+
+(* the common part of tactics 1, 3 and 5: if moving the forbidden variables so that every selected
+   row does not increase can only move the term in the right direction, then substituting the
+   equality solution of the selected rows is a refinement (relaxation) *)
+Lemma reduction_sound term rows fvars sols refine ctx :
+  wft term -> Forall wft rows -> incl rows ctx ->
+  solve_for_variables rows fvars = inl sols ->
+  (forall rho rho', (forall w, ~ In w fvars -> rho w = rho' w) ->
+     (forall r, In r rows -> ev rho r - ev rho' r <= 0) -> tcR refine * (ev rho term - ev rho' term) <= 0) ->
+  wft (subst_all sols (term_copy term)) /\ dir_ok refine ctx term (subst_all sols (term_copy term)).
+Proof.
+  intros Ht Hrows Hincl Hsolve Hcone.
+  destruct (solve_spec rows fvars sols Hrows Hsolve) as [Sw [Snd [Sin [Sind [_ Seq]]]]].
+  destruct (subst_all_spec sols (term_copy term) (wft_copy term Ht) Sw Sind) as [Tw Tev].
+  split; [exact Tw|].
+  destruct Seq as [->|Seq]; [apply dir_ok_copy|].
+  assert (Key : forall rho, sat_list rho ctx ->
+            tcR refine * (ev rho term - ev rho (subst_all sols (term_copy term))) <= 0).
+  { intros rho Hs. rewrite Tev, ev_copy. set (rho' := upds rho rho sols).
+    assert (Hsol : forall v s, In (v, s) sols -> rho' v = ev rho' s).
+    { intros v s Hi. unfold rho'. rewrite (upds_in rho rho sols v s Snd Hi).
+      symmetry. apply ev_upds_indep; [eapply Sw; exact Hi|]. intros w Hw. eapply Sind; eassumption. }
+    assert (Heq : dvs 0 rho' rho' rows).
+    { apply (proj2 (Seq 0 rho' rho')). intros v s Hi. unfold dv. rewrite (Hsol v s Hi). lra. }
+    apply Hcone.
+    - intros w Hw. unfold rho'. symmetry. apply upds_notin. intros Hin. apply Hw. apply Sin. exact Hin.
+    - intros r Hr. specialize (Heq r Hr). unfold dv in Heq.
+      assert (Hsr : sat rho r).
+      { unfold sat_list in Hs. rewrite Forall_forall in Hs. apply Hs. apply Hincl. exact Hr. }
+      apply sat_ev in Hsr. lra. }
+  destruct refine; intros rho Hs Hsat; specialize (Key rho Hs); unfold tcR in Key; apply sat_ev; apply sat_ev in Hsat; lra.
+Qed.
+
+(** ** The Kaykobad context of tactic 1 *)
+Lemma Q2R_m1 : Q2R (-(1)) = -1.
+Proof. unfold Q2R. simpl. lra. Qed.
+
+Lemma signq_inl t v s : signq t v = inl s -> Q2R s = sgnR (gcR t v).
+Proof.
+  unfold signq, term_get_sign, term_get_polarity.
+  destruct (assoc v (tvars t)) as [c|] eqn:A; simpl; [|discriminate].
+  intros H. inversion H; subst. unfold gcR. rewrite get_coefficient_coef. unfold coef. rewrite A.
+  unfold sgnR. destruct (qle 0 c) eqn:Q.
+  - apply qle_true in Q. rewrite Q2R_0 in Q. destruct (Rle_dec 0 (Q2R c)); [apply Q2R_1|contradiction].
+  - apply qle_false in Q. rewrite Q2R_0 in Q. destruct (Rle_dec 0 (Q2R c)); [lra|apply Q2R_m1].
+Qed.
+
+Definition dummy : pterm := mkT [] 0%Q.
+
+Lemma length_add_lists a b : List.length (add_lists a b) = Nat.min (List.length a) (List.length b).
+Proof. revert b. induction a as [|x a IH]; intros [|y b]; simpl; try reflexivity. rewrite IH. reflexivity. Qed.
+Lemma nth_add_lists a b j : (j < List.length a)%nat -> (j < List.length b)%nat ->
+  Q2R (nth_q (add_lists a b) j) = Q2R (nth_q a j) + Q2R (nth_q b j).
+Proof.
+  revert b j. induction a as [|x a IH]; intros [|y b] [|j]; simpl; intros H1 H2; try lia.
+  - apply Q2R_qadd.
+  - apply IH; lia.
+Qed.
+Lemma nth_q_map0 {A} (l : list A) j : Q2R (nth_q (map (fun _ => 0%Q) l) j) = 0.
+Proof. revert j. induction l as [|x l IH]; intros [|j]; simpl; try apply Q2R_0. apply IH. Qed.
+Lemma skipn_cons_inv {A} (l : list A) i x r d :
+  skipn i l = x :: r -> (i < List.length l)%nat /\ nth i l d = x /\ skipn (S i) l = r.
+Proof.
+  revert i. induction l as [|y l IH]; intros [|i] H; simpl in *; try discriminate.
+  - inversion H; subst. repeat split. lia.
+  - destruct (IH i H) as [H1 [H2 H3]]. repeat split; [lia|exact H2|exact H3].
+Qed.
+Lemma skipn_nil_inv {A} (l : list A) i : skipn i l = [] -> (List.length l <= i)%nat.
+Proof.
+  revert i. induction l as [|y l IH]; intros [|i] H; simpl in *; try lia; try discriminate.
+  specialize (IH i H). lia.
+Qed.
+
+Section KK.
+Variables (term : pterm) (fvars : list var) (tc : Q).
+Hypothesis Htc : Q2R tc * Q2R tc = 1.
+Let n := List.length fvars.
+Let fv (j : nat) : var := nth j fvars ""%string.
+Let qR (j : nat) : R := gcR term (fv j).
+
+Lemma kk_sign_ok ctx l :
+  kk_sign_invalid term ctx tc l = inl false ->
+  forall v, In v l -> gcR ctx v <> 0 -> Q2R tc * sgnR (gcR ctx v) = sgnR (gcR term v).
+Proof.
+  induction l as [|x l IH]; simpl; intros H v Hv Hn; [destruct Hv|].
+  destruct (negb (qzero (get_coefficient ctx x))) eqn:Z.
+  - destruct (signq ctx x) as [sc|e] eqn:S1; simpl in H; [|discriminate].
+    destruct (signq term x) as [st|e] eqn:S2; simpl in H; [|discriminate].
+    destruct (negb (Qeq_bool (qmul tc sc) st)) eqn:B; [inversion H|].
+    apply negb_false_iff in B. apply Qeq_bool_Q2R in B. rewrite Q2R_qmul in B.
+    destruct Hv as [->|Hv]; [|apply IH; assumption].
+    rewrite <- (signq_inl _ _ _ S1), <- (signq_inl _ _ _ S2). exact B.
+  - destruct Hv as [->|Hv]; [|apply IH; assumption].
+    apply negb_false_iff in Z. apply qzero_true in Z. unfold gcR in Hn. contradiction.
+Qed.
+
+Definition resR (ctx : pterm) (i j : nat) : R :=
+  if Nat.eqb j i then 0 else sgnR (qR j) * gcR ctx (fv j) * qR i / gcR ctx (fv i).
+
+Lemma kk_res_spec ctx i partial : gcR ctx (fv i) <> 0 ->
+  forall l j res, (forall k, (k < List.length l)%nat -> nth k l ""%string = fv (j + k)) ->
+  kk_residuals term ctx i (fv i) l j partial = inl (Some res) ->
+  List.length res = List.length l /\
+  forall k, (k < List.length l)%nat ->
+    Q2R (nth_q res k) = resR ctx i (j + k) /\
+    Q2R (nth_q partial (j + k)) + Q2R (nth_q res k) < Rabs (qR (j + k)).
+Proof.
+  intros Hd. assert (HdQ : ~ (get_coefficient ctx (fv i) == 0)%Q) by (apply Q2R_neq0; exact Hd).
+  induction l as [|x l IH]; intros j res Hl H.
+  - simpl in H. inversion H. split; [reflexivity|]. intros k Hk. simpl in Hk. lia.
+  - assert (Hx : x = fv j).
+    { specialize (Hl O). simpl in Hl. rewrite Nat.add_0_r in Hl. apply Hl. lia. }
+    cbn [kk_residuals] in H.
+    assert (Hrj : exists rj,
+      (if Nat.eqb j i then ret 0%Q else
+         sj <- signq term x ;;
+         ret (qdiv (qmul (qmul sj (get_coefficient ctx x)) (get_coefficient term (fv i)))
+                   (get_coefficient ctx (fv i)))) = inl rj /\ Q2R rj = resR ctx i j).
+    { unfold resR. destruct (Nat.eqb j i).
+      - exists 0%Q. split; [reflexivity|apply Q2R_0].
+      - destruct (signq term x) as [sj|e] eqn:S; simpl.
+        + eexists. split; [reflexivity|]. rewrite (Q2R_qdiv _ _ HdQ), !Q2R_qmul, (signq_inl _ _ _ S).
+          subst x. reflexivity.
+        + simpl in H. discriminate. }
+    destruct Hrj as [rj [Erj Qrj]]. rewrite Erj in H. cbn [bind] in H.
+    destruct (qle (qabs (get_coefficient term x)) (qadd (nth_q partial j) rj)) eqn:Qle; [inversion H|].
+    apply qle_false in Qle. rewrite Q2R_qadd, Q2R_qabs in Qle.
+    destruct (kk_residuals term ctx i (fv i) l (S j) partial) as [[l'|]|e] eqn:R; simpl in H; inversion H; subst res.
+    destruct (IH (S j) l') as [L Hk'].
+    + intros k Hk. specialize (Hl (S k)). simpl in Hl. rewrite Nat.add_succ_r in Hl. apply Hl. lia.
+    + exact R.
+    + split; [simpl; rewrite L; reflexivity|]. intros [|k] Hk.
+      * rewrite Nat.add_0_r. simpl. split; [exact Qrj|]. subst x. exact Qle.
+      * rewrite Nat.add_succ_r. simpl. apply Hk'. simpl in Hk. lia.
+Qed.
+
+Lemma kk_find_row_spec cands other i i_var partial ctx res :
+  kk_find_row term cands other fvars tc i i_var partial = inl (Some (ctx, res)) ->
+  In ctx cands /\ kk_sign_invalid term ctx tc fvars = inl false /\
+  qzero (get_coefficient ctx i_var) = false /\
+  kk_residuals term ctx i i_var fvars 0 partial = inl (Some res).
+Proof.
+  induction cands as [|c cands IH]; simpl; intros H; [discriminate|].
+  assert (Next : kk_find_row term cands other fvars tc i i_var partial = inl (Some (ctx, res)) ->
+                 (c = ctx \/ In ctx cands) /\ kk_sign_invalid term ctx tc fvars = inl false /\
+                 qzero (get_coefficient ctx i_var) = false /\
+                 kk_residuals term ctx i i_var fvars 0 partial = inl (Some res)).
+  { intros H'. destruct (IH H') as [A B]. split; [right; exact A|exact B]. }
+  destruct (term_eqb_p c term); [auto|].
+  destruct (existsb (fun v => negb (qzero (get_coefficient c v))) other); [auto|].
+  destruct (kk_sign_invalid term c tc fvars) as [inv|e] eqn:S; simpl in H; [|discriminate].
+  destruct (qzero (get_coefficient c i_var)) eqn:Z; simpl in H; [auto|].
+  destruct inv; [auto|].
+  destruct (kk_residuals term c i i_var fvars 0 partial) as [[r|]|e] eqn:R; simpl in H; [|auto|discriminate].
+  inversion H; subst. split; [left; reflexivity|]. split; [exact S|]. split; [exact Z|exact R].
+Qed.
+
+Definition aR (rows : list pterm) (i j : nat) : R := gcR (nth i rows dummy) (fv j).
+Definition RES (rows : list pterm) (i j : nat) : R := resR (nth i rows dummy) i j.
+Definition row_good (rows : list pterm) (i : nat) : Prop :=
+  (forall j, (j < n)%nat -> aR rows i j <> 0 -> Q2R tc * sgnR (aR rows i j) = sgnR (qR j)) /\
+  aR rows i i <> 0 /\
+  (forall j, (j < n)%nat -> sumn (S i) (fun i' => RES rows i' j) < Rabs (qR j)).
+
+Lemma RES_app rows l i j : (i < List.length rows)%nat -> RES (rows ++ l) i j = RES rows i j.
+Proof. intros H. unfold RES. rewrite app_nth1 by exact H. reflexivity. Qed.
+Lemma row_good_app rows l i : (i < List.length rows)%nat -> row_good rows i -> row_good (rows ++ l) i.
+Proof.
+  intros Hi [H1 [H2 H3]]. unfold row_good, aR in *. rewrite app_nth1 by exact Hi.
+  split; [exact H1|]. split; [exact H2|]. intros j Hj.
+  rewrite (sumn_ext (S i) _ (fun i' => RES rows i' j)); [apply H3; exact Hj|].
+  intros i' Hi'. apply RES_app. lia.
+Qed.
+
+Definition kk_inv (rows : list pterm) (partial : list Q) : Prop :=
+  List.length partial = n /\
+  (forall i, (i < List.length rows)%nat -> row_good rows i) /\
+  (forall j, (j < n)%nat -> Q2R (nth_q partial j) = sumn (List.length rows) (fun i' => RES rows i' j)).
+
+Lemma kk_rows_spec context other : forall todo i rows partial co rows' co',
+  skipn i fvars = todo -> i = List.length rows -> (i <= n)%nat -> kk_inv rows partial ->
+  (forall r, In r rows -> In r context) ->
+  kk_rows term context other fvars tc todo i rows partial co = inl (rows', co') ->
+  List.length rows' = n /\ (forall i', (i' < n)%nat -> row_good rows' i') /\ (forall r, In r rows' -> In r context).
+Proof.
+  induction todo as [|i_var todo' IH]; intros i rows partial co rows' co' Hsk Hi Hle Hinv Hin H.
+  - simpl in H. inversion H; subst rows' co'. apply skipn_nil_inv in Hsk. fold n in Hsk.
+    assert (E : List.length rows = n) by lia. split; [exact E|]. split; [|exact Hin].
+    intros i' Hi'. apply Hinv. lia.
+  - destruct (skipn_cons_inv fvars i i_var todo' ""%string Hsk) as [Hlt [Hnth Hsk']]. fold n in Hlt.
+    change (nth i fvars ""%string) with (fv i) in Hnth. subst i_var.
+    cbn [kk_rows] in H.
+    destruct (kk_find_row term (list_diff context rows) other fvars tc i (fv i) partial) as [[[ctx res]|]|e] eqn:F;
+      simpl in H; try discriminate.
+    destruct (kk_find_row_spec _ _ _ _ _ _ _ F) as [Hc [Hsign [Hz Hres]]].
+    assert (Hd : gcR ctx (fv i) <> 0) by (apply qzero_false; exact Hz).
+    destruct (kk_res_spec ctx i partial Hd fvars 0 res (fun k _ => eq_refl) Hres) as [Lres Hk].
+    destruct Hinv as [Lp [Hgood Hpart]].
+    eapply (IH (S i) (rows ++ [ctx]) (add_lists partial res)); [exact Hsk'| | | | |exact H].
+    + rewrite app_length. simpl. lia.
+    + lia.
+    + assert (Hnew : nth i (rows ++ [ctx]) dummy = ctx) by (subst i; apply nth_middle).
+      split; [|split].
+      * rewrite length_add_lists, Lp, Lres. fold n. apply Nat.min_id.
+      * intros i' Hi'. rewrite app_length in Hi'. simpl in Hi'.
+        destruct (Nat.eq_dec i' i) as [->|Hne].
+        -- unfold row_good, aR. rewrite Hnew. split; [|split; [exact Hd|]].
+           ++ intros j Hj Hnz. apply (kk_sign_ok ctx fvars Hsign); [apply nth_In; exact Hj|exact Hnz].
+           ++ intros j Hj. simpl. rewrite (sumn_ext i _ (fun i' => RES rows i' j)).
+              ** unfold RES at 2. rewrite Hnew. destruct (Hk j Hj) as [E1 E2]. simpl in E1, E2.
+                 pose proof (Hpart j Hj) as Hp. rewrite <- Hi in Hp. rewrite <- Hp, <- E1. exact E2.
+              ** intros i' Hi''. apply RES_app. lia.
+        -- apply row_good_app; [lia|]. apply Hgood. lia.
+      * intros j Hj. rewrite nth_add_lists by (rewrite ?Lp, ?Lres; exact Hj).
+        rewrite app_length. simpl. rewrite Nat.add_1_r. simpl.
+        rewrite (sumn_ext (List.length rows) _ (fun i' => RES rows i' j)) by (intros i' Hi'; apply RES_app; exact Hi').
+        rewrite <- (Hpart j Hj). f_equal. unfold RES. rewrite <- Hi, Hnew.
+        destruct (Hk j Hj) as [E1 _]. simpl in E1. exact E1.
+    + intros r Hr. apply in_app_iff in Hr. destruct Hr as [Hr|[<-|[]]]; [apply Hin; exact Hr|].
+      unfold list_diff in Hc. apply filter_In in Hc. tauto.
+Qed.
+
+(* the cone property of the selected rows *)
+Lemma kk_cone rows :
+  List.length rows = n -> (forall i, (i < n)%nat -> row_good rows i) ->
+  Forall wft rows -> wft term -> NoDup fvars ->
+  forall rho rho', (forall w, ~ In w fvars -> rho w = rho' w) ->
+    (forall r, In r rows -> ev rho r - ev rho' r <= 0) ->
+    Q2R tc * (ev rho term - ev rho' term) <= 0.
+Proof.
+  intros L Hgood Hw Ht Hnd rho rho' Hag Hrows.
+  set (d := fun j => rho (fv j) - rho' (fv j)).
+  assert (Hdiff : forall t, wft t -> ev rho t - ev rho' t = sumn n (fun j => gcR t (fv j) * d j)).
+  { intros t Hwt. rewrite (ev_diff rho rho' t fvars Hwt Hnd Hag), sumf_sumn. reflexivity. }
+  rewrite (Hdiff term Ht).
+  set (A := fun i j => Rabs (aR rows i j)). set (Q := fun j => Rabs (qR j)).
+  assert (HA : forall i j, 0 <= A i j) by (intros; apply Rabs_pos).
+  assert (Hdiag : forall i, (i < n)%nat -> 0 < A i i).
+  { intros i Hi. apply Rabs_pos_lt. apply (Hgood i Hi). }
+  assert (Hoff : forall i j, (i < n)%nat -> (j < n)%nat -> RES rows i j = off A Q i j).
+  { intros i j Hi Hj. unfold RES, resR, off. rewrite Nat.eqb_sym. destruct (Nat.eqb i j); [reflexivity|].
+    destruct (Hgood i Hi) as [G1 [G2 _]].
+    apply (res_eq (Q2R tc) (aR rows i j) (aR rows i i) (qR j) (qR i) Htc (G1 j Hj) G2 (G1 i Hi G2)). }
+  assert (Hoffnn : forall i j, (i < n)%nat -> 0 <= off A Q i j).
+  { intros i j Hi. unfold off. destruct (Nat.eqb i j); [lra|].
+    apply Rmult_le_pos; [apply Rmult_le_pos; [apply HA|apply Rabs_pos]|].
+    left. apply Rinv_0_lt_compat. apply Hdiag. exact Hi. }
+  assert (HQ : forall j, (j < n)%nat -> 0 < Q j).
+  { intros j Hj. assert (H0 : (0 < n)%nat) by lia. destruct (Hgood O H0) as [_ [_ G3]].
+    specialize (G3 j Hj). simpl in G3. rewrite (Hoff O j H0 Hj) in G3.
+    pose proof (Hoffnn O j H0). unfold Q. lra. }
+  assert (Hdom : forall j, (j < n)%nat -> sumn n (fun i => off A Q i j) < Q j).
+  { intros j Hj. assert (H0 : (n - 1 < n)%nat) by lia. destruct (Hgood (n - 1)%nat H0) as [_ [_ G3]].
+    specialize (G3 j Hj). replace (S (n - 1)) with n in G3 by lia.
+    rewrite (sumn_ext n _ (fun i => off A Q i j)) in G3; [exact G3|]. intros i Hi. apply Hoff; assumption. }
+  assert (HR : forall i, (i < n)%nat -> sumn n (fun j => A i j * (Q2R tc * sgnR (qR j) * d j)) <= 0).
+  { intros i Hi. rewrite (sumn_ext n _ (fun j => aR rows i j * d j)).
+    - assert (Hin : In (nth i rows dummy) rows) by (apply nth_In; lia).
+      rewrite Forall_forall in Hw. unfold aR. rewrite <- (Hdiff _ (Hw _ Hin)). apply Hrows. exact Hin.
+    - intros j Hj. apply sign_pattern; [exact Htc|]. apply (Hgood i Hi). exact Hj. }
+  pose proof (kaykobad_cone n A Q (fun j => Q2R tc * sgnR (qR j) * d j) HQ (fun i j _ _ => HA i j) Hdiag Hdom HR) as K.
+  rewrite (sumn_ext n _ (fun j => Q2R tc * (qR j * d j))) in K.
+  - rewrite sumn_scale in K. exact K.
+  - intros j Hj. unfold Q. rewrite (abs_sgn (qR j)). pose proof (sgn_sq (qR j)) as S2.
+    replace (sgnR (qR j) * qR j * (Q2R tc * sgnR (qR j) * d j))
+      with ((sgnR (qR j) * sgnR (qR j)) * (Q2R tc * (qR j * d j))) by ring.
+    rewrite S2. lra.
+Qed.
+(* ... and they form a nonsingular system in the forbidden variables *)
+Lemma kk_nonsing rows :
+  List.length rows = n -> (forall i, (i < n)%nat -> row_good rows i) ->
+  Forall wft rows -> NoDup fvars ->
+  forall rho rho', (forall w, ~ In w fvars -> rho w = rho' w) ->
+    (forall r, In r rows -> ev rho r - ev rho' r = 0) ->
+    forall v, In v fvars -> rho v = rho' v.
+Proof.
+  intros L Hgood Hw Hnd rho rho' Hag Hrows.
+  set (d := fun j => rho (fv j) - rho' (fv j)).
+  assert (Hdiff : forall t, wft t -> ev rho t - ev rho' t = sumn n (fun j => gcR t (fv j) * d j)).
+  { intros t Hwt. rewrite (ev_diff rho rho' t fvars Hwt Hnd Hag), sumf_sumn. reflexivity. }
+  set (A := fun i j => Rabs (aR rows i j)). set (Q := fun j => Rabs (qR j)).
+  assert (HA : forall i j, 0 <= A i j) by (intros; apply Rabs_pos).
+  assert (Hdiag : forall i, (i < n)%nat -> 0 < A i i).
+  { intros i Hi. apply Rabs_pos_lt. apply (Hgood i Hi). }
+  assert (Hoff : forall i j, (i < n)%nat -> (j < n)%nat -> RES rows i j = off A Q i j).
+  { intros i j Hi Hj. unfold RES, resR, off. rewrite Nat.eqb_sym. destruct (Nat.eqb i j); [reflexivity|].
+    destruct (Hgood i Hi) as [G1 [G2 _]].
+    apply (res_eq (Q2R tc) (aR rows i j) (aR rows i i) (qR j) (qR i) Htc (G1 j Hj) G2 (G1 i Hi G2)). }
+  assert (Hoffnn : forall i j, (i < n)%nat -> 0 <= off A Q i j).
+  { intros i j Hi. unfold off. destruct (Nat.eqb i j); [lra|].
+    apply Rmult_le_pos; [apply Rmult_le_pos; [apply HA|apply Rabs_pos]|].
+    left. apply Rinv_0_lt_compat. apply Hdiag. exact Hi. }
+  assert (HQ : forall j, (j < n)%nat -> 0 < Q j).
+  { intros j Hj. assert (H0 : (0 < n)%nat) by lia. destruct (Hgood O H0) as [_ [_ G3]].
+    specialize (G3 j Hj). simpl in G3. rewrite (Hoff O j H0 Hj) in G3.
+    pose proof (Hoffnn O j H0). unfold Q. lra. }
+  assert (Hdom : forall j, (j < n)%nat -> sumn n (fun i => off A Q i j) < Q j).
+  { intros j Hj. assert (H0 : (n - 1 < n)%nat) by lia. destruct (Hgood (n - 1)%nat H0) as [_ [_ G3]].
+    specialize (G3 j Hj). replace (S (n - 1)) with n in G3 by lia.
+    rewrite (sumn_ext n _ (fun i => off A Q i j)) in G3; [exact G3|]. intros i Hi. apply Hoff; assumption. }
+  assert (HR : forall i, (i < n)%nat -> sumn n (fun j => A i j * (Q2R tc * sgnR (qR j) * d j)) = 0).
+  { intros i Hi. rewrite (sumn_ext n _ (fun j => aR rows i j * d j)).
+    - assert (Hin : In (nth i rows dummy) rows) by (apply nth_In; lia).
+      rewrite Forall_forall in Hw. unfold aR. rewrite <- (Hdiff _ (Hw _ Hin)). apply Hrows. exact Hin.
+    - intros j Hj. apply sign_pattern; [exact Htc|]. apply (Hgood i Hi). exact Hj. }
+  pose proof (kaykobad_nonsingular n A Q (fun j => Q2R tc * sgnR (qR j) * d j) HQ (fun i j _ _ => HA i j) Hdiag Hdom HR) as K.
+  intros v Hv. destruct (In_nth fvars v ""%string Hv) as [j [Hj Ej]]. fold n in Hj.
+  specialize (K j Hj). cbv beta in K. unfold d in K. change (nth j fvars ""%string) with (fv j) in Ej. rewrite Ej in K.
+  assert (Hs : sgnR (qR j) * sgnR (qR j) = 1) by apply sgn_sq.
+  assert (E : rho v - rho' v = (Q2R tc * Q2R tc) * (sgnR (qR j) * sgnR (qR j)) * (rho v - rho' v)) by (rewrite Htc, Hs; lra).
+  assert (E2 : (Q2R tc * Q2R tc) * (sgnR (qR j) * sgnR (qR j)) * (rho v - rho' v)
+               = Q2R tc * sgnR (qR j) * (Q2R tc * sgnR (qR j) * (rho v - rho' v))) by ring.
+  rewrite E2, K in E. lra.
+Qed.
+End KK.
+
+Definition tcQ (refine : bool) : Q := if refine then 1%Q else (-(1))%Q.
+Lemma Q2R_tcQ refine : Q2R (tcQ refine) = tcR refine.
+Proof. destruct refine; simpl; [apply Q2R_1|apply Q2R_m1]. Qed.
+Lemma tcQ_sq refine : Q2R (tcQ refine) * Q2R (tcQ refine) = 1.
+Proof. rewrite Q2R_tcQ. destruct refine; simpl; lra. Qed.
+
+Lemma get_kk_spec term ctx vs refine rows fv' :
+  get_kaykobad_context term ctx vs refine = inl (rows, fv') ->
+  let fvars := list_intersection vs (term_vars_p term) in
+  fv' = fvars /\ List.length rows = List.length fvars /\
+  (forall i, (i < List.length fvars)%nat -> row_good term fvars (tcQ refine) rows i) /\
+  (forall r, In r rows -> In r ctx).
+Proof.
+  unfold get_kaykobad_context. cbv zeta. fold (tcQ refine).
+  set (fvars := list_intersection vs (term_vars_p term)). intros H.
+  apply bind_inl in H. destruct H as [[rows0 others] [H1 H2]].
+  destruct (negb others && negb (nonempty (list_diff (term_vars_p term) vs))); [discriminate|].
+  inversion H2; subst rows0 fv'. split; [reflexivity|].
+  apply (kk_rows_spec term fvars (tcQ refine) ctx (list_diff vs (term_vars_p term)) fvars 0 []
+           (map (fun _ => 0%Q) fvars) false rows others); try reflexivity; try lia.
+  - split; [apply map_length|]. split; [intros i Hi; simpl in Hi; lia|].
+    intros j Hj. simpl. apply nth_q_map0.
+  - intros r [].
+  - exact H1.
+Qed.
+
+(* what tactic 1 returns, and that it is sound *)
+Lemma tactic_1_spec O term ctx vs refine t' cnt :
+  wft term -> Forall wft ctx -> NoDup vs ->
+  tactic_1 O term ctx vs refine = inl (Some t', cnt) ->
+  let fvars := list_intersection vs (term_vars_p term) in
+  exists rows sols,
+    (forall r, In r rows -> In r ctx) /\ List.length rows = List.length fvars /\
+    (forall i, (i < List.length fvars)%nat -> row_good term fvars (tcQ refine) rows i) /\
+    solve_for_variables rows fvars = inl sols /\ t' = subst_all sols (term_copy term) /\
+    wft t' /\ dir_ok refine ctx term t'.
+Proof.
+  intros Ht Hctx Hvs H. cbv zeta. unfold tactic_1 in H. apply bind_inl in H. destruct H as [r [H1 H2]].
+  inversion H2; subst r cnt. clear H2. unfold context_reduction in H1.
+  apply bind_inl in H1. destruct H1 as [[rows fv'] [H1 H2]]. apply as_value_error_inl in H1.
+  apply bind_inl in H2. destruct H2 as [sols [H2 H3]]. inversion H3; subst t'. clear H3.
+  destruct (get_kk_spec term ctx vs refine rows fv' H1) as [-> [L [Hgood Hin]]].
+  set (fvars := list_intersection vs (term_vars_p term)) in *.
+  assert (Hrw : Forall wft rows).
+  { rewrite Forall_forall in *. intros x Hx. apply Hctx. apply Hin. exact Hx. }
+  assert (Hnd : NoDup fvars) by (apply NoDup_list_intersection; exact Hvs).
+  exists rows, sols. split; [exact Hin|]. split; [exact L|]. split; [exact Hgood|]. split; [exact H2|].
+  split; [reflexivity|].
+  apply (reduction_sound term rows fvars sols refine ctx Ht Hrw Hin H2).
+  intros rho rho' Hag Hr. rewrite <- Q2R_tcQ.
+  apply (kk_cone term fvars (tcQ refine) (tcQ_sq refine) rows L Hgood Hrw Ht Hnd rho rho' Hag Hr).
+Qed.
+
+Lemma good_subst_all rows fvars sols t0 :
+  Forall good rows -> solve_for_variables rows fvars = inl sols -> good t0 -> good (subst_all sols t0).
+Proof.
+  intros Hr Hs [Hw Hu]. assert (Hrw : Forall wft rows) by (apply Forall_good_wft; exact Hr).
+  destruct (solve_spec rows fvars sols Hrw Hs) as [Sw [_ [_ [Sind [Sz _]]]]].
+  split; [apply (subst_all_spec sols t0 Hw Sw Sind)|].
+  apply gcR_subst_all_zero; try assumption. apply Sz. intros r Hin. rewrite Forall_forall in Hr. apply Hr. exact Hin.
+Qed.
+
+Theorem tactic_1_ok : tactic_ok 1.
+Proof.
+  intros O HO term ctx vs refine t' cnt Hs H _. destruct (side_good _ _ _ Hs) as [Ht Hc].
+  destruct Hs as [Hg [Hgc [Hvs _]]]. simpl in H.
+  destruct (tactic_1_spec O term ctx vs refine t' cnt Ht Hc Hvs H) as [rows [sols [Hin [_ [_ [Hsol [-> [Hw Hd]]]]]]]].
+  split; [|exact Hd].
+  apply (good_subst_all rows (list_intersection vs (term_vars_p term)) sols (term_copy term));
+    [|exact Hsol|apply good_copy, good'_good; exact Hg].
+  rewrite Forall_forall in *. intros x Hx. apply Hgc. apply Hin. exact Hx.
+Qed.
+
+(* ------------------------------------------------------------------ *)
+(** * Tactic 5: LP-active rows with exact multipliers (one Farkas step) *)
+Lemma unary_inj i j : unary i = unary j -> i = j.
+Proof.
+  revert j. induction i as [|i IH]; intros [|j] H; simpl in H; try discriminate; [reflexivity|].
+  inversion H. f_equal. apply IH. assumption.
+Qed.
+Lemma lam_name_inj i j : lam_name i = lam_name j -> i = j.
+Proof. unfold lam_name. intros H. inversion H. apply unary_inj. assumption. Qed.
+Lemma NoDup_names i m : NoDup (map lam_name (seq i m)).
+Proof.
+  apply FinFun.Injective_map_NoDup; [|apply seq_NoDup]. intros x y. apply lam_name_inj.
+Qed.
+
+Fixpoint lsum (L : val) (i : nat) (rows : list pterm) (X : pterm -> R) : R :=
+  match rows with [] => 0 | r :: rs => L (lam_name i) * X r + lsum L (S i) rs X end.
+
+Lemma lin_combine_names L (g : pterm -> Q) rows : forall i,
+  lin L (combine (map lam_name (seq i (List.length rows))) (map g rows)) = lsum L i rows (fun r => Q2R (g r)).
+Proof. induction rows as [|r rs IH]; intros i; simpl; [reflexivity|]. rewrite IH. lra. Qed.
+Lemma lsum_ext L rows X Y : (forall r, In r rows -> X r = Y r) -> forall i, lsum L i rows X = lsum L i rows Y.
+Proof.
+  induction rows as [|r rs IH]; intros H i; simpl; [reflexivity|].
+  rewrite (H r), IH; [reflexivity| |left; reflexivity]. intros r' Hr. apply H. right. exact Hr.
+Qed.
+Lemma lsum_scale L rows X c : forall i, lsum L i rows (fun r => X r * c) = lsum L i rows X * c.
+Proof. induction rows as [|r rs IH]; intros i; simpl; [lra|]. rewrite IH. lra. Qed.
+Lemma lsum_sumf L rows (F : pterm -> var -> R) vs : forall i,
+  lsum L i rows (fun r => sumf (fun v => F r v) vs) = sumf (fun v => lsum L i rows (fun r => F r v)) vs.
+Proof.
+  induction rows as [|r rs IH]; intros i; simpl.
+  - induction vs as [|v vs IHv]; simpl; [reflexivity|]. rewrite <- IHv. lra.
+  - rewrite IH, <- sumf_scale, <- sumf_plus. reflexivity.
+Qed.
+Lemma lsum_nonpos sg L rows X :
+  (forall j, 0 <= sg * L (lam_name j)) -> (forall r, In r rows -> X r <= 0) -> forall i, sg * lsum L i rows X <= 0.
+Proof.
+  intros HL. induction rows as [|r rs IH]; intros HX i; simpl; [lra|].
+  assert (H1 : sg * lsum L (S i) rs X <= 0) by (apply IH; intros r' Hr; apply HX; right; exact Hr).
+  assert (H2 : X r <= 0) by (apply HX; left; reflexivity). pose proof (HL i). nra.
+Qed.
+
+Lemma multipliers_spec term rows fvars refine pivots rest :
+  let names := map lam_name (seq 0 (List.length rows)) in
+  let eqs := map (fun v => mk_term (combine names (map (fun r => get_coefficient r v) rows))
+                                   (get_coefficient term v)) fvars in
+  let lams := map (fun q => qneg (tconst (solve_isolate (snd q) (fst q)))) pivots in
+  gauss names [] eqs = (pivots, rest) ->
+  List.length pivots = List.length names -> (List.length fvars <= List.length rows)%nat ->
+  refine && existsb (fun l => qlt l 0) lams = false ->
+  negb refine && existsb (fun l => qlt 0 l) lams = false ->
+  exists L : val, (forall j, 0 <= tcR refine * L (lam_name j)) /\
+                  forall v, In v fvars -> lsum L 0 rows (fun r => gcR r v) = gcR term v.
+Proof.
+  intros names eqs lams G Lp Ln S1 S2.
+  assert (Hnd : NoDup names) by apply NoDup_names.
+  assert (Hw : Forall wft eqs).
+  { apply Forall_forall. intros e He. apply in_map_iff in He. destruct He as [v [<- _]].
+    apply wft_mk_term. apply NoDup_keys_combine. exact Hnd. }
+  assert (Hrest : rest = []).
+  { destruct (gauss_spec _ _ _ _ _ G Hnd (fun _ _ F => F) (gstate_init eqs Hw)) as [_ [_ [_ [_ [_ [_ [G7 _]]]]]]].
+    unfold eqs, names in G7, Lp. rewrite !map_length, seq_length in *. simpl in G7.
+    destruct rest; [reflexivity|]. simpl in G7. lia. }
+  subst rest.
+  destruct (gauss_sols_spec names eqs pivots [] Hw Hnd G) as [Sw [Snd [_ [Sind [_ [Seq _]]]]]].
+  set (sols := map sol_of pivots) in *. set (Z := fun _ : var => 0).
+  exists (upds Z Z sols). split.
+  - intros j. destruct (in_dec string_dec (lam_name j) (map fst sols)) as [Hi|Hn].
+    + apply in_fst_pivots in Hi. destruct Hi as [s Hi]. rewrite (upds_in Z Z sols _ s Snd Hi).
+      assert (Hl : In (qneg (tconst s)) lams).
+      { unfold sols in Hi. apply in_sol_of in Hi. destruct Hi as [p [Hi ->]].
+        unfold lams. apply in_map_iff. exists (lam_name j, p). split; [reflexivity|exact Hi]. }
+      assert (E : ev Z s = Q2R (qneg (tconst s))).
+      { unfold ev. rewrite lin_vanish by (intros; reflexivity). rewrite Q2R_qneg. lra. }
+      rewrite E. destruct refine; simpl in *.
+      * assert (H : qlt (qneg (tconst s)) 0 = false).
+        { destruct (qlt (qneg (tconst s)) 0) eqn:Q; [|reflexivity].
+          assert (existsb (fun l => qlt l 0) lams = true) by (apply existsb_exists; eauto). congruence. }
+        apply qlt_false in H. rewrite Q2R_0 in H. lra.
+      * assert (H : qlt 0 (qneg (tconst s)) = false).
+        { destruct (qlt 0 (qneg (tconst s))) eqn:Q; [|reflexivity].
+          assert (existsb (fun l => qlt 0 l) lams = true) by (apply existsb_exists; eauto). congruence. }
+        apply qlt_false in H. rewrite Q2R_0 in H. lra.
+    + rewrite (upds_notin Z Z sols _ Hn). unfold Z. lra.
+  - intros v Hv. set (L := upds Z Z sols).
+    assert (Hd : dvs 0 L L eqs).
+    { apply (proj2 (Seq 0 L L)). split; [|intros r []]. intros x s Hi. unfold dv, L. rewrite (upds_in Z Z sols x s Snd Hi).
+      rewrite ev_upds_indep; [lra|eapply Sw; exact Hi|]. intros w Hw'. eapply Sind; eassumption. }
+    assert (He : In (mk_term (combine names (map (fun r => get_coefficient r v) rows)) (get_coefficient term v)) eqs).
+    { unfold eqs. apply in_map_iff. exists v. split; [reflexivity|exact Hv]. }
+    specialize (Hd _ He). unfold dv, ev in Hd. rewrite lin_mk_term, mk_term_const in Hd.
+    unfold names in Hd. rewrite lin_combine_names in Hd. unfold gcR. lra.
+Qed.
+
+Lemma tlp_pick_incl ctx : forall slack fvars need r, In r (tlp_pick ctx slack fvars need) -> In r ctx.
+Proof.
+  induction ctx as [|c ctx IH]; intros slack fvars need r H.
+  - destruct need; simpl in H; destruct H.
+  - destruct need as [|k]; [destruct H|]. destruct slack as [|s sr]; [destruct H|].
+    cbn [tlp_pick] in H.
+    destruct (isclose0 s && nonempty (list_intersection (term_vars_p c) fvars)).
+    + destruct H as [<-|H]; [left; reflexivity|right; eapply IH; exact H].
+    + right. eapply IH. exact H.
+Qed.
+
+Lemma get_tlp_spec O term ctx vs refine rows fv' :
+  get_tlp_context O term ctx vs refine = inl (rows, fv') ->
+  let fvars := list_intersection vs (term_vars_p term) in
+  fv' = fvars /\ (forall r, In r rows -> In r ctx) /\
+  exists L : val, (forall j, 0 <= tcR refine * L (lam_name j)) /\
+                  forall v, In v fvars -> lsum L 0 rows (fun r => gcR r v) = gcR term v.
+Proof.
+  unfold get_tlp_context. cbv zeta. set (fvars := list_intersection vs (term_vars_p term)).
+  destruct (polytope_vars ctx []) as [|v0 vl]; [discriminate|].
+  destruct (O _) as [f slack| | | |]; try discriminate.
+  destruct (Nat.ltb _ _); [discriminate|].
+  set (rws := tlp_pick ctx slack fvars (List.length fvars)).
+  destruct (Nat.ltb (List.length rws) (List.length fvars)) eqn:L1; [discriminate|].
+  apply Nat.ltb_ge in L1.
+  destruct (gauss _ [] _) as [pivots rest] eqn:G.
+  destruct (negb (Nat.eqb (List.length pivots) _)) eqn:L2; [discriminate|].
+  apply negb_false_iff, Nat.eqb_eq in L2.
+  destruct (refine && existsb _ _) eqn:S1; [discriminate|].
+  destruct (negb refine && existsb _ _) eqn:S2; [discriminate|].
+  intros H. inversion H; subst rows fv'. split; [reflexivity|]. split.
+  - intros r Hr. eapply tlp_pick_incl. exact Hr.
+  - eapply multipliers_spec; eassumption.
+Qed.
+
+Lemma tactic_5_spec O term ctx vs refine t' cnt :
+  wft term -> Forall wft ctx -> NoDup vs ->
+  tactic_5 O term ctx vs refine = inl (Some t', cnt) ->
+  exists rows sols, (forall r, In r rows -> In r ctx) /\
+    solve_for_variables rows (list_intersection vs (term_vars_p term)) = inl sols /\
+    t' = subst_all sols (term_copy term) /\ wft t' /\ dir_ok refine ctx term t'.
+Proof.
+  intros Ht Hctx Hvs H. unfold tactic_5 in H. apply bind_inl in H. destruct H as [r [H1 H2]].
+  inversion H2; subst r cnt. clear H2. unfold context_reduction in H1.
+  apply bind_inl in H1. destruct H1 as [[rows fv'] [H1 H2]]. apply as_value_error_inl in H1.
+  apply bind_inl in H2. destruct H2 as [sols [H2 H3]]. inversion H3; subst t'. clear H3.
+  destruct (get_tlp_spec O term ctx vs refine rows fv' H1) as [-> [Hin [L [HL Heq]]]].
+  set (fvars := list_intersection vs (term_vars_p term)) in *.
+  assert (Hrw : Forall wft rows).
+  { rewrite Forall_forall in *. intros x Hx. apply Hctx. apply Hin. exact Hx. }
+  assert (Hnd : NoDup fvars) by (apply NoDup_list_intersection; exact Hvs).
+  exists rows, sols. split; [exact Hin|]. split; [exact H2|]. split; [reflexivity|].
+  apply (reduction_sound term rows fvars sols refine ctx Ht Hrw Hin H2).
+  intros rho rho' Hag Hr.
+  assert (E : ev rho term - ev rho' term = lsum L 0 rows (fun r => ev rho r - ev rho' r)).
+  { rewrite (ev_diff rho rho' term fvars Ht Hnd Hag).
+    rewrite (lsum_ext L rows _ (fun r => sumf (fun v => gcR r v * (rho v - rho' v)) fvars)).
+    - rewrite lsum_sumf. apply sumf_ext. intros v Hv. rewrite <- (Heq v Hv), <- lsum_scale. reflexivity.
+    - intros r Hin'. rewrite Forall_forall in Hrw. apply (ev_diff rho rho' r fvars (Hrw r Hin') Hnd Hag). }
+  rewrite E. apply lsum_nonpos; assumption.
+Qed.
+
+Theorem tactic_5_ok : tactic_ok 5.
+Proof.
+  intros O HO term ctx vs refine t' cnt Hs H _. destruct (side_good _ _ _ Hs) as [Ht Hc].
+  destruct Hs as [Hg [Hgc [Hvs _]]]. simpl in H.
+  destruct (tactic_5_spec O term ctx vs refine t' cnt Ht Hc Hvs H) as [rows [sols [Hin [Hsol [-> [Hw Hd]]]]]].
+  split; [|exact Hd].
+  apply (good_subst_all rows (list_intersection vs (term_vars_p term)) sols (term_copy term));
+    [|exact Hsol|apply good_copy, good'_good; exact Hg].
+  rewrite Forall_forall in *. intros x Hx. apply Hgc. apply Hin. exact Hx.
+Qed.
+
+(* ------------------------------------------------------------------ *)
+(** * Tactic 4: chains of one-variable substitutions (refinement only) *)
+Lemma ev_multiply rho t f : ev rho (term_multiply t f) = Q2R f * ev rho t.
+Proof. unfold ev. rewrite lin_multiply, const_multiply. lra. Qed.
+Lemma gcR_multiply t f w : wft t -> gcR (term_multiply t f) w = Q2R f * gcR t w.
+Proof.
+  intros Ht. rewrite (gcR_slope _ w (wft_multiply t f Ht)), (gcR_slope t w Ht), !ev_multiply. lra.
+Qed.
+
+Lemma isolate_spec t v s :
+  wft' t -> term_isolate_variable t v = inl s ->
+  wft s /\ gcR t v <> 0 /\ (forall rho, ev rho s = rho v - ev rho t / gcR t v) /\
+  (forall w, gcR s w = if String.eqb w v then 0 else - gcR t w / gcR t v).
+Proof.
+  intros Ht H. assert (Hw : wft s) by (eapply wft_isolate_variable; [apply Ht|exact H]).
+  assert (Ha : gcR t v <> 0).
+  { destruct (isolate_sem (fun _ => 0) t v s Ht H) as [Ha _]. apply Q2R_neq0. exact Ha. }
+  assert (Hev : forall rho, ev rho s = rho v - ev rho t / gcR t v).
+  { intros rho. destruct (isolate_sem rho t v s Ht H) as [_ [_ [Hl Hc]]]. cbv zeta in Hl, Hc.
+    unfold ev, gcR in *. rewrite Hl, Hc. field. exact Ha. }
+  split; [exact Hw|]. split; [exact Ha|]. split; [exact Hev|].
+  intros w. rewrite (gcR_slope s w Hw), !Hev. rewrite (ev_upd _ t w 1 (proj1 Ht)). unfold upd.
+  destruct (String.eqb v w) eqn:E.
+  - apply String.eqb_eq in E. subst w. rewrite String.eqb_refl. field. exact Ha.
+  - rewrite String.eqb_sym, E. field. exact Ha.
+Qed.
+
+Lemma tactic_4_strong : forall fuel term ctx vs no_vars t' cnt,
+  wft term -> Forall wft ctx ->
+  tactic_4 fuel term ctx vs true no_vars = inl (Some t', cnt) ->
+  wft t' /\ (forall rho, sat_list rho ctx -> ev rho term <= ev rho t') /\
+  (forall z, ~ In z vs -> gcR term z = 0 -> (forall c, In c ctx -> gcR c z = 0) -> gcR t' z = 0).
+Proof.
+  induction fuel as [|fuel IHf]; intros term ctx vs no_vars t' cnt Ht Hctx H; [discriminate|].
+  cbn [tactic_4 negb] in H. cbv zeta in H.
+  destruct (Nat.ltb 1 (List.length (list_intersection vs (term_vars_p term)))); [discriminate|].
+  destruct (list_intersection vs (term_vars_p term)) as [|v crest] eqn:EC; [discriminate|].
+  assert (Hv : In v vs).
+  { assert (Hi : In v (list_intersection vs (term_vars_p term))) by (rewrite EC; left; reflexivity).
+    apply in_list_intersection in Hi. tauto. }
+  set (P1 := fun c => negb (nonempty (list_intersection (term_vars_p c) no_vars)) &&
+                      (negb (qzero (get_coefficient c v)) &&
+                       qlt 0 (qmul (qmul 1 (get_coefficient c v)) (get_coefficient term v)))) in H.
+  (* what membership in goal_context / useful_context gives *)
+  assert (Hmem : forall (k : nat) x,
+            In x (map term_copy (filter (fun c => Nat.eqb (List.length (list_intersection (term_vars_p c) vs)) k)
+                                        (filter P1 ctx))) ->
+            wft' x /\ (forall rho, sat_list rho ctx -> sat rho x) /\ 0 < gcR x v * gcR term v /\
+            (forall z, (forall c, In c ctx -> gcR c z = 0) -> gcR x z = 0)).
+  { intros k x Hx. apply in_map_iff in Hx. destruct Hx as [c [<- Hc]].
+    apply filter_In in Hc. destruct Hc as [Hc _]. apply filter_In in Hc. destruct Hc as [Hc HP].
+    assert (Hwc : wft c) by (rewrite Forall_forall in Hctx; apply Hctx; exact Hc).
+    split; [apply wft'_copy; exact Hwc|]. split; [|split].
+    - intros rho Hs. apply sat_copy. unfold sat_list in Hs. rewrite Forall_forall in Hs. apply Hs. exact Hc.
+    - unfold P1 in HP. apply andb_true_iff in HP. destruct HP as [_ HP]. apply andb_true_iff in HP.
+      destruct HP as [_ HP]. apply qlt_true in HP. rewrite Q2R_0, !Q2R_qmul, Q2R_1 in HP.
+      rewrite gcR_copy by exact Hwc. unfold gcR. lra.
+    - intros z Hz. rewrite gcR_copy by exact Hwc. apply Hz. exact Hc. }
+  set (goal := map term_copy (filter (fun c => Nat.eqb (List.length (list_intersection (term_vars_p c) vs)) 1) (filter P1 ctx))) in *.
+  set (useful := map term_copy (filter (fun c => Nat.eqb (List.length (list_intersection (term_vars_p c) vs)) 2) (filter P1 ctx))) in *.
+  assert (Hgoal : forall x, In x goal -> wft' x /\ (forall rho, sat_list rho ctx -> sat rho x) /\ 0 < gcR x v * gcR term v /\
+            (forall z, (forall c, In c ctx -> gcR c z = 0) -> gcR x z = 0)) by (intros x Hx; apply (Hmem 1%nat); exact Hx).
+  assert (Huse : forall x, In x useful -> wft' x /\ (forall rho, sat_list rho ctx -> sat rho x) /\ 0 < gcR x v * gcR term v /\
+            (forall z, (forall c, In c ctx -> gcR c z = 0) -> gcR x z = 0)) by (intros x Hx; apply (Hmem 2%nat); exact Hx).
+  clear Hmem. clearbody goal useful.
+  match type of H with context [?f useful 1%nat] => set (loop := f) in H end.
+  destruct goal as [|g gs].
+  - (* recursive branch *)
+    destruct useful as [|u0 us0]; [discriminate|].
+    revert Huse H. generalize 1%nat. generalize (u0 :: us0). clear u0 us0.
+    intros usl. induction usl as [|u usl IHl]; intros total Huse H; [discriminate|].
+    unfold loop in H at 1. lazy beta iota fix in H. fold loop in H.
+    assert (Huse' : forall x, In x usl -> wft' x /\ (forall rho, sat_list rho ctx -> sat rho x) /\ 0 < gcR x v * gcR term v /\
+            (forall z, (forall c, In c ctx -> gcR c z = 0) -> gcR x z = 0)) by (intros x Hx; apply Huse; right; exact Hx).
+    destruct (term_isolate_variable u v) as [iso|e] eqn:EI; [|discriminate].
+    set (sign := if qlt 0 (get_coefficient term v) then 1%Q else (-(1))%Q) in *.
+    destruct (tactic_4 fuel (term_multiply iso sign) (remove_first_term u ctx) vs true (no_vars ++ [v]))
+      as [[[rt|] c]|e] eqn:ER.
+    + inversion H; subst t' cnt. clear H IHl Huse'.
+      destruct (Huse u (or_introl eq_refl)) as [Hwu [Hsu [Hpos Hzu]]].
+      destruct (isolate_spec u v iso Hwu EI) as [Hwi [Ha [Hevi Hgi]]].
+      assert (Hctx' : Forall wft (remove_first_term u ctx)).
+      { rewrite Forall_forall in *. intros x Hx. apply Hctx. eapply in_remove_first_gen. exact Hx. }
+      destruct (IHf _ _ _ _ _ _ (wft_multiply iso sign Hwi) Hctx' ER) as [Hwr [Hevr Hzr]].
+      assert (Hwm : wft (term_multiply rt sign)) by (apply wft_multiply; exact Hwr).
+      assert (Hsg : (Q2R sign = 1 /\ 0 < gcR term v) \/ (Q2R sign = -1 /\ gcR term v <= 0)).
+      { unfold sign. destruct (qlt 0 (get_coefficient term v)) eqn:Q.
+        - left. apply qlt_true in Q. rewrite Q2R_0 in Q. split; [apply Q2R_1|exact Q].
+        - right. apply qlt_false in Q. rewrite Q2R_0 in Q. split; [apply Q2R_m1|exact Q]. }
+      split; [apply wft_substitute_variable; assumption|]. split.
+      * intros rho Hs. rewrite ev_subst by assumption. rewrite ev_multiply.
+        assert (Hs' : sat_list rho (remove_first_term u ctx)).
+        { unfold sat_list in *. rewrite Forall_forall in *. intros x Hx. apply Hs. eapply in_remove_first_gen. exact Hx. }
+        specialize (Hevr rho Hs'). rewrite ev_multiply, Hevi in Hevr.
+        pose proof (Hsu rho Hs) as Hu. apply sat_ev in Hu.
+        set (X := ev rho u / gcR u v) in *.
+        assert (HX : X * gcR u v = ev rho u) by (unfold X; field; exact Ha).
+        destruct Hsg as [[Es Hq0]|[Es Hq0]]; rewrite Es in *.
+        -- assert (0 < gcR u v) by nra. assert (X <= 0) by nra. nra.
+        -- assert (gcR u v < 0) by nra. assert (0 <= X) by nra. nra.
+      * intros z Hz Hz0 Hzc. rewrite gcR_subst by assumption.
+        assert (Hne : String.eqb z v = false) by (apply String.eqb_neq; intros ->; contradiction).
+        rewrite Hne, Hz0, gcR_multiply by exact Hwr.
+        rewrite (Hzr z Hz); [lra| |].
+        -- rewrite gcR_multiply by exact Hwi. rewrite Hgi, Hne, (Hzu z Hzc). field. exact Ha.
+        -- intros c0 Hc0. apply Hzc. eapply in_remove_first_gen. exact Hc0.
+    + apply (IHl _ Huse' H).
+    + destruct (is_value_error e); [apply (IHl _ Huse' H)|discriminate].
+  - (* direct branch *)
+    clear Huse. apply bind_inl in H. destruct H as [iso [EI H]]. inversion H; subst t' cnt. clear H.
+    destruct (Hgoal g (or_introl eq_refl)) as [Hwg [Hsg [Hpos Hzg]]].
+    destruct (isolate_spec g v iso Hwg EI) as [Hwi [Ha [Hevi Hgi]]].
+    split; [apply wft_substitute_variable; assumption|]. split.
+    + intros rho Hs. rewrite ev_subst by assumption. rewrite Hevi.
+      pose proof (Hsg rho Hs) as Hg. apply sat_ev in Hg.
+      set (X := ev rho g / gcR g v) in *.
+      assert (HX : X * gcR g v = ev rho g) by (unfold X; field; exact Ha).
+      assert (Hc : 0 <= - (gcR term v * X)).
+      { destruct (Rlt_dec 0 (gcR g v)) as [Hp|Hn].
+        - assert (0 < gcR term v) by nra. assert (X <= 0) by nra. nra.
+        - assert (gcR g v < 0) by lra. assert (gcR term v < 0) by nra. assert (0 <= X) by nra. nra. }
+      lra.
+    + intros z Hz Hz0 Hzc. rewrite gcR_subst by assumption.
+      assert (Hne : String.eqb z v = false) by (apply String.eqb_neq; intros ->; contradiction).
+      rewrite Hne, Hz0, Hgi, Hne, (Hzg z Hzc). field. exact Ha.
+Qed.
+
+Theorem tactic_4_ok : tactic_ok 4.
+Proof.
+  intros O HO term ctx vs refine t' cnt Hs H _. destruct (side_good _ _ _ Hs) as [Ht Hc].
+  destruct Hs as [[_ Hu] [Hgc [_ Hus]]].
+  change (tactic_4 (S (List.length ctx)) term ctx vs refine [] = inl (Some t', cnt)) in H.
+  destruct refine; [|cbn [tactic_4 negb] in H; discriminate].
+  destruct (tactic_4_strong _ _ _ _ _ _ _ Ht Hc H) as [Hw [Hev Hz]].
+  split; [split; [exact Hw|]|].
+  - apply (Hz us Hus Hu). intros c Hin. rewrite Forall_forall in Hgc. apply Hgc. exact Hin.
+  - intros rho Hsat Hs'. apply sat_ev. apply sat_ev in Hs'. specialize (Hev rho Hsat). lra.
+Qed.
+
+(* ------------------------------------------------------------------ *)
+(** * A nonsingular system is solved for every unknown *)
+Lemma solve_total rows fvars sols :
+  Forall wft rows -> solve_for_variables rows fvars = inl sols ->
+  (forall r1 r2, (forall w, ~ In w fvars -> r1 w = r2 w) -> dvs 1 r1 r2 rows ->
+                 forall v, In v fvars -> r1 v = r2 v) ->
+  forall v, In v fvars -> In v (tl_vars rows) -> In v (map fst sols).
+Proof.
+  intros Hw H Hns. apply solve_unfold in H. cbv zeta in H. destruct H as [L [pivots [rest [G H]]]].
+  set (V := list_intersection (tl_vars rows) fvars) in *.
+  assert (HV : NoDup V) by (apply NoDup_list_intersection; apply NoDup_tl_vars; exact Hw).
+  destruct (gauss_sols_spec V rows pivots rest Hw HV G) as [S1 [S2 [S3 [S4 [_ [S6 [S7 [S8 [S9 S10]]]]]]]]].
+  set (sols0 := map sol_of pivots) in *.
+  assert (C : forall v, In v V -> In v (map fst sols0)).
+  { intros v Hv. destruct (in_dec string_dec v (map fst sols0)) as [Hi|Hn]; [exact Hi|exfalso].
+    set (Z := fun _ : var => 0). set (r0 := upd Z v 1).
+    set (r1 := upds Z Z sols0). set (r2 := upds r0 r0 sols0).
+    assert (Hind : forall base x s, In (x, s) sols0 -> ev (upds base base sols0) s = ev base s).
+    { intros base x s Hi. apply ev_upds_indep; [eapply S1; exact Hi|]. intros w Hw'. eapply S4; eassumption. }
+    assert (Hd : dvs 1 r1 r2 rows).
+    { apply (proj2 (S6 1 r1 r2)). split.
+      - intros x s Hi. unfold dv, r1, r2. rewrite !(Hind _ x s Hi), !(upds_in _ _ sols0 x s S2 Hi). lra.
+      - intros r Hr. unfold dv, r1, r2. rewrite Forall_forall in S7.
+        rewrite !ev_upds_indep by (first [apply S7; exact Hr|intros w Hw'; apply S8; assumption]).
+        unfold r0. rewrite (ev_upd Z r v 1 (S7 r Hr)), (S9 v Hv Hn r Hr). lra. }
+    assert (Hvf : In v fvars) by (apply in_list_intersection in Hv; tauto).
+    assert (Hag : forall w, ~ In w fvars -> r1 w = r2 w).
+    { intros w Hw'. assert (Hnw : ~ In w (map fst sols0)).
+      { intros Hi. apply Hw'. apply S3 in Hi. apply in_list_intersection in Hi. tauto. }
+      unfold r1, r2. rewrite !upds_notin by exact Hnw. unfold r0. rewrite upd_other; [reflexivity|].
+      intros ->. contradiction. }
+    pose proof (Hns r1 r2 Hag Hd v Hvf) as E. unfold r1, r2 in E. rewrite !upds_notin in E by exact Hn.
+    unfold r0 in E. rewrite upd_same in E. unfold Z in E. lra. }
+  assert (Hlen : (List.length V <= List.length sols0)%nat).
+  { rewrite <- (map_length fst sols0). apply NoDup_incl_length; [exact HV|exact C]. }
+  assert (Hrest : rest = []) by (destruct rest; [reflexivity|simpl in S10; lia]).
+  destruct H as [[_ ->]|[Zf _]]; [|rewrite Hrest in Zf; discriminate].
+  intros v Hv1 Hv2. apply C. apply in_list_intersection. tauto.
+Qed.
+
+Lemma kk_solved term fvars refine rows sols :
+  List.length rows = List.length fvars ->
+  (forall i, (i < List.length fvars)%nat -> row_good term fvars (tcQ refine) rows i) ->
+  Forall wft rows -> NoDup fvars -> solve_for_variables rows fvars = inl sols ->
+  forall v, In v fvars -> In v (map fst sols).
+Proof.
+  intros L Hgood Hw Hnd Hs v Hv.
+  apply (solve_total rows fvars sols Hw Hs); [|exact Hv|].
+  - intros r1 r2 Hag Hd. apply (kk_nonsing term fvars (tcQ refine) (tcQ_sq refine) rows L Hgood Hw Hnd r1 r2 Hag).
+    intros r Hr. specialize (Hd r Hr). unfold dv in Hd. lra.
+  - destruct (In_nth fvars v ""%string Hv) as [j [Hj Ej]].
+    destruct (Hgood j Hj) as [_ [Hd _]]. unfold aR in Hd. rewrite Ej in Hd.
+    apply in_tl_vars. exists (nth j rows dummy). split; [apply nth_In; lia|].
+    destruct (in_dec string_dec v (term_vars_p (nth j rows dummy))) as [Hi|Hn]; [exact Hi|].
+    exfalso. apply Hd. apply gcR_notin. exact Hn.
+Qed.
+
+(* ------------------------------------------------------------------ *)
+(** * M4: tactic 3 (change of variable "_" := sum of the forbidden part) *)
+Lemma ev_remove rho t v : wft t -> ev rho (term_remove_variable t v) = ev rho t - gcR t v * rho v.
+Proof. intros Ht. unfold ev, gcR. rewrite (lin_remove_variable rho t v Ht), const_remove_variable. lra. Qed.
+Lemma gcR_remove t v z : wft t -> z <> v -> gcR (term_remove_variable t v) z = gcR t z.
+Proof.
+  intros Ht Hz. rewrite (gcR_slope _ z (wft_remove_variable t v Ht)), (gcR_slope t z Ht), !ev_remove by exact Ht.
+  rewrite upd_other by (intros E; apply Hz; symmetry; exact E). lra.
+Qed.
+Lemma gcR_fold_remove vs z : forall t, wft t -> ~ In z vs -> gcR (fold_left term_remove_variable vs t) z = gcR t z.
+Proof.
+  induction vs as [|v vs IH]; intros t Ht Hz; simpl; [reflexivity|].
+  rewrite IH; [|apply wft_remove_variable; exact Ht|intros H; apply Hz; right; exact H].
+  apply gcR_remove; [exact Ht|]. intros ->. apply Hz. left. reflexivity.
+Qed.
+Lemma filter_neq_id (v0 : var) l : ~ In v0 l -> filter (fun v => negb (String.eqb v v0)) l = l.
+Proof.
+  induction l as [|x l IH]; intros H; simpl; [reflexivity|].
+  destruct (String.eqb x v0) eqn:E.
+  - apply String.eqb_eq in E. subst. exfalso. apply H. left. reflexivity.
+  - simpl. f_equal. apply IH. intros Hi. apply H. right. exact Hi.
+Qed.
+
+Theorem tactic_3_ok : tactic_ok 3.
+Proof.
+  intros O HO term ctx vs refine t' cnt Hs H _. destruct (side_good _ _ _ Hs) as [Ht Hc].
+  destruct Hs as [[[_ Hnz] Hu] [Hgc [Hvs Hus]]]. simpl run_tactic in H. unfold tactic_3 in H. cbv zeta in H.
+  destruct (list_intersection vs (term_vars_p term)) as [|v0 crest] eqn:EC; [discriminate|].
+  set (conflict := v0 :: crest) in *.
+  assert (Hconf : forall x, In x conflict <-> In x vs /\ In x (term_vars_p term)).
+  { intros x. rewrite <- EC. apply in_list_intersection. }
+  assert (Hcnd : NoDup conflict) by (rewrite <- EC; apply NoDup_list_intersection; exact Hvs).
+  assert (Hv0 : In v0 vs /\ In v0 (term_vars_p term)) by (apply Hconf; left; reflexivity).
+  assert (Husc : ~ In us conflict) by (intros Hi; apply Hconf in Hi; tauto).
+  assert (Hne0 : us <> v0) by (intros E; apply Hus; rewrite E; tauto).
+  assert (Hv0c : ~ In v0 crest) by (inversion Hcnd; assumption).
+  assert (Hc0 : gcR term v0 <> 0).
+  { unfold gcR. rewrite get_coefficient_coef. apply Q2R_neq0. apply coef_nonzero; [exact Hnz|apply Hv0]. }
+  assert (Hc0Q : ~ (get_coefficient term v0 == 0)%Q) by (apply Q2R_neq0; exact Hc0).
+  set (S := fun rho : val => sumf (fun v => gcR term v * rho v) conflict).
+  (* the term with its forbidden part replaced by "_"%string *)
+  set (nt0 := fold_left term_remove_variable conflict (term_copy term)) in *.
+  destruct (fold_remove_spec conflict (term_copy term) (wft_copy term Ht)) as [N0w [N0c N0l]]. fold nt0 in N0w, N0c, N0l.
+  set (new_term := mkT (dict_set (tvars nt0) "_"%string 1) (tconst nt0)) in *.
+  assert (NTw : wft new_term) by (unfold wft, new_term; cbn [tvars]; apply NoDup_keys_dict_set; exact N0w).
+  assert (N0u : gcR nt0 us = 0).
+  { unfold nt0. rewrite gcR_fold_remove by (first [apply wft_copy; exact Ht|exact Husc]). rewrite gcR_copy by exact Ht. exact Hu. }
+  assert (NTev : forall sg, ev sg new_term = ev sg term - S sg + sg us).
+  { intros sg. unfold ev at 1. unfold new_term. cbn [tvars tconst]. rewrite lin_dict_set.
+    change (Q2R (coef (tvars nt0) "_"%string)) with (Q2R (coef (tvars nt0) us)).
+    rewrite <- get_coefficient_coef. fold (gcR nt0 us). rewrite N0u, Q2R_1, N0l, N0c.
+    unfold term_copy. rewrite lin_mk_term, mk_term_const.
+    pose proof (ev_diff sg (zero_on conflict sg) term conflict Ht Hcnd) as Hd.
+    rewrite (sumf_ext _ (fun v => gcR term v * sg v)) in Hd.
+    - unfold ev in Hd. fold (S sg) in Hd. change ("_"%string) with us.
+      assert (Hd' : lin sg (tvars term) - Q2R (tconst term) - (lin (zero_on conflict sg) (tvars term) - Q2R (tconst term)) = S sg).
+      { apply Hd. intros w Hw. unfold zero_on. destruct (in_dec string_dec w conflict); [contradiction|reflexivity]. }
+      unfold ev. lra.
+    - intros v Hv. unfold zero_on. destruct (in_dec string_dec v conflict); [lra|contradiction]. }
+  (* the substitution term  v0 = ("_"%string - sum of the others) / c0 *)
+  set (st := mk_term (("_"%string, qdiv 1 (get_coefficient term v0))
+                      :: map (fun v => (v, qdiv (qneg (get_coefficient term v)) (get_coefficient term v0)))
+                             (filter (fun v => negb (String.eqb v v0)) conflict)) 0%Q) in *.
+  assert (Efil : filter (fun v => negb (String.eqb v v0)) conflict = crest).
+  { unfold conflict. simpl. rewrite String.eqb_refl. simpl. apply filter_neq_id. exact Hv0c. }
+  assert (STw : wft st).
+  { unfold st. apply wft_mk_term. rewrite Efil. rewrite keys_cons.
+    rewrite (keys_map_var (fun v => qdiv (qneg (get_coefficient term v)) (get_coefficient term v0))).
+    constructor; [|inversion Hcnd; assumption]. intros Hi. apply Husc. right. exact Hi. }
+  assert (STev : forall sg, ev sg st = (sg us - sumf (fun v => gcR term v * sg v) crest) / gcR term v0).
+  { intros sg. unfold ev, st. rewrite lin_mk_term, mk_term_const, Efil, lin_cons, Q2R_0.
+    rewrite (lin_map_var sg (fun v => qdiv (qneg (get_coefficient term v)) (get_coefficient term v0))).
+    rewrite (sumf_ext _ (fun v => (- / gcR term v0) * (gcR term v * sg v))).
+    - rewrite sumf_scale, (Q2R_qdiv _ _ Hc0Q), Q2R_1. change ("_"%string) with us. unfold gcR. field. exact Hc0.
+    - intros v _. rewrite (Q2R_qdiv _ _ Hc0Q), Q2R_qneg. unfold gcR. field. exact Hc0. }
+  set (nctx := map (fun el => term_substitute_variable (term_copy el) v0 st) ctx) in *.
+  set (nel := list_diff (list_union vs ["_"%string]) [v0]) in *.
+  assert (NCw : Forall wft nctx).
+  { apply Forall_forall. intros x Hx. apply in_map_iff in Hx. destruct Hx as [el [<- Hel]].
+    apply wft_substitute_variable; [apply wft_copy; rewrite Forall_forall in Hc; apply Hc; exact Hel|exact STw]. }
+  assert (NEnd : NoDup nel).
+  { apply NoDup_list_diff. apply NoDup_list_union; [exact Hvs|constructor; [intros []|constructor]]. }
+  destruct (tactic_1_spec O new_term nctx nel refine t' cnt NTw NCw NEnd H)
+    as [rows [sols [Rin [RL [Rgood [Rsol [Et' [Tw Tdir]]]]]]]].
+  set (fv' := list_intersection nel (term_vars_p new_term)) in *.
+  assert (Hrw : Forall wft rows).
+  { rewrite Forall_forall in *. intros x Hx. apply NCw. apply Rin. exact Hx. }
+  assert (Hfv'nd : NoDup fv') by (apply NoDup_list_intersection; exact NEnd).
+  assert (Husfv : In us fv').
+  { apply in_list_intersection. split.
+    - apply in_list_diff. split; [apply in_list_union; right; left; reflexivity|]. intros [E|[]]. apply Hne0. symmetry. exact E.
+    - unfold term_vars_p, new_term. cbn [tvars]. apply in_keys_dict_set. right. reflexivity. }
+  pose proof (kk_solved new_term fv' refine rows sols RL Rgood Hrw Hfv'nd Rsol us Husfv) as Hsolved.
+  destruct (solve_spec rows fv' sols Hrw Rsol) as [Sw [_ [_ [Sind _]]]].
+  assert (Tu : gcR t' us = 0).
+  { rewrite Et'. apply gcR_subst_all_solved; [apply wft_copy; exact NTw|exact Sw|exact Hsolved|].
+    intros v s Hi. eapply Sind; eassumption. }
+  split; [split; assumption|].
+  (* the valuation extended with "_"%string *)
+  assert (Key : forall rho, let rho' := upd rho us (S rho) in
+            ev rho' new_term = ev rho term /\ ev rho' t' = ev rho t' /\
+            (sat_list rho ctx -> sat_list rho' nctx)).
+  { intros rho rho'.
+    assert (Hst : ev rho' st = rho' v0).
+    { rewrite STev. unfold rho'. rewrite upd_same, (upd_other rho us _ v0) by (intros E; apply Hne0; symmetry; exact E).
+      rewrite (sumf_ext (fun v => gcR term v * upd rho us (S rho) v) (fun v => gcR term v * rho v)).
+      - unfold S, conflict. rewrite sumf_cons. field. exact Hc0.
+      - intros v Hv. rewrite upd_other; [reflexivity|]. intros ->. apply Husc. right. exact Hv. }
+    split; [|split].
+    - rewrite NTev. unfold rho' at 3. rewrite upd_same. unfold rho'. rewrite (ev_upd rho term us _ Ht), Hu.
+      assert (ES : S (upd rho us (S rho)) = S rho).
+      { unfold S at 1 3. apply sumf_ext. intros v Hv. rewrite upd_other; [reflexivity|]. intros ->. contradiction. }
+      rewrite ES. lra.
+    - unfold rho'. rewrite (ev_upd rho t' us _ Tw), Tu. lra.
+    - intros Hsat. unfold sat_list, nctx. apply Forall_forall. intros x Hx. apply in_map_iff in Hx.
+      destruct Hx as [el [<- Hel]].
+      assert (Hgel : good el) by (rewrite Forall_forall in Hgc; apply Hgc; exact Hel).
+      apply sat_ev. rewrite ev_subst by (first [apply wft_copy; apply Hgel|exact STw]).
+      rewrite Hst, ev_copy. unfold rho'. rewrite (ev_upd rho el us _ (proj1 Hgel)), (proj2 Hgel).
+      unfold sat_list in Hsat. rewrite Forall_forall in Hsat. specialize (Hsat el Hel). apply sat_ev in Hsat. lra. }
+  destruct refine; intros rho Hsat Hs'; destruct (Key rho) as [K1 [K2 K3]]; cbv zeta in *; apply sat_ev; apply sat_ev in Hs'.
+  - rewrite <- K1. apply sat_ev. apply (Tdir _ (K3 Hsat)). apply sat_ev. rewrite K2. exact Hs'.
+  - rewrite <- K2. apply sat_ev. apply (Tdir _ (K3 Hsat)). apply sat_ev. rewrite K1. exact Hs'.
+Qed.
+
+(* ------------------------------------------------------------------ *)
+(** * Every tactic number is acceptable *)
+Theorem all_tactics_ok : forall num, tactic_ok num.
+Proof.
+  intros num. destruct num as [|[|[|[|[|[|[|k]]]]]]].
+  - intros O HO term ctx vs refine t' cnt _ H. discriminate.
+  - exact tactic_1_ok.
+  - exact tactic_2_ok.
+  - exact tactic_3_ok.
+  - exact tactic_4_ok.
+  - exact tactic_5_ok.
+  - exact tactic_6_ok.
+  - intros O HO term ctx vs refine t' cnt _ H. discriminate.
+Qed.
+
+(** * C04 with plain hypotheses *)
+(* the inputs the theorems are about: Python dicts (distinct keys), terms built by __init__ (no stored
+   zero coefficient), distinct variables to eliminate, and the scratch name "_" of tactic 3 unused *)
+Definition no_us (t : pterm) : Prop := ~ In us (term_vars_p t).
+Definition wf_input (self ctx : list pterm) (vs : list var) : Prop :=
+  Forall wft' self /\ Forall wft ctx /\ NoDup vs /\ ~ In us vs /\ Forall no_us self /\ Forall no_us ctx.
+
+Lemma wf_input_good self ctx vs : wf_input self ctx vs -> Forall good' self /\ Forall good ctx /\ NoDup vs /\ ~ In us vs.
+Proof.
+  intros [H1 [H2 [H3 [H4 [H5 H6]]]]]. split; [|split; [|split; assumption]].
+  - rewrite Forall_forall in *. intros x Hx. split; [apply H1; exact Hx|apply gcR_notin; apply H5; exact Hx].
+  - rewrite Forall_forall in *. intros x Hx. split; [apply H2; exact Hx|apply gcR_notin; apply H6; exact Hx].
+Qed.
+
+Theorem C04_refine_all O : lp_spec 0 O -> forall order self ctx vs sp r st,
+  wf_input self ctx vs ->
+  elim_vars_by_refining O self ctx vs sp order = inl (r, st) ->
+  forall rho, sat_list rho ctx -> sat_list rho r -> sat_list rho self.
+Proof.
+  intros HO order self ctx vs sp r st Hwf H. destruct (wf_input_good _ _ _ Hwf) as [G1 [G2 [G3 G4]]].
+  apply (C04_refine O order HO (fun num _ => all_tactics_ok num) ctx vs G2 G3 G4 self sp r st G1 H).
+Qed.
+
+Theorem C04_relax_all O : lp_spec 0 O -> forall order self ctx vs sp r st,
+  wf_input self ctx vs ->
+  elim_vars_by_relaxing O self ctx vs sp order = inl (r, st) ->
+  (forall rho, sat_list rho ctx -> sat_list rho self -> sat_list rho r) /\
+  (forall t v, In t r -> In v vs -> ~ In v (term_vars_p t)).
+Proof.
+  intros HO order self ctx vs sp r st Hwf H. destruct (wf_input_good _ _ _ Hwf) as [G1 [G2 [G3 G4]]].
+  apply (C04_relax O order HO (fun num _ => all_tactics_ok num) ctx vs G2 G3 G4 self sp r st G1 H).
+Qed.
+
+Theorem transform_refine_sound_all O : lp_spec 0 O -> forall order self ctx vs sp r st,
+  wf_input self ctx vs ->
+  transform O self ctx vs true sp order = inl (r, st) ->
+  forall rho, sat_list rho ctx -> sat_list rho r -> sat_list rho self.
+Proof.
+  intros HO order self ctx vs sp r st Hwf H. destruct (wf_input_good _ _ _ Hwf) as [G1 [G2 [G3 G4]]].
+  apply (transform_refine_sound O order HO (fun num _ => all_tactics_ok num) ctx vs G2 G3 G4 self sp r st G1 H).
+Qed.
+Theorem transform_relax_sound_all O : lp_spec 0 O -> forall order self ctx vs sp r st,
+  wf_input self ctx vs ->
+  transform O self ctx vs false sp order = inl (r, st) ->
+  forall rho, sat_list rho ctx -> sat_list rho self -> sat_list rho r.
+Proof.
+  intros HO order self ctx vs sp r st Hwf H. destruct (wf_input_good _ _ _ Hwf) as [G1 [G2 [G3 G4]]].
+  apply (transform_relax_sound O order HO (fun num _ => all_tactics_ok num) ctx vs G2 G3 G4 self sp r st G1 H).
+Qed.
+
+(* ------------------------------------------------------------------ *)
+(** * Non-vacuity: the definitions run, every tactic fires, and the theorems apply *)
+Section Examples.
+Local Open Scope string_scope.
+Local Open Scope Q_scope.
+Definition ex_t1 : pterm := mkT [("x", 1); ("y", 1)] 6.       (* x + y <= 6 *)
+Definition ex_t2 : pterm := mkT [("x", 1); ("y", -(1))] 6.    (* x - y <= 6 *)
+Definition ex_c1 : pterm := mkT [("y", 1)] 5.                 (* y <= 5 *)
+Definition ex_c2 : pterm := mkT [("y", 1); ("z", -(1))] 0.    (* y - z <= 0 *)
+Definition ex_c3 : pterm := mkT [("z", 1)] 5.                 (* z <= 5 *)
+Definition ex_x1 : pterm := mkT [("x", 1)] 1.                 (* x <= 1 *)
+Definition ex_x11 : pterm := mkT [("x", 1)] 11.               (* x <= 11 *)
+Definition noO : oracle := fun _ => LpMiss.
+Definition ex_tbl4 : list (lp_problem * lp_answer) :=
+  [(mkLP ["y"] [-(1)] [([1], 5)], LpOpt (-(5)) [0])].         (* min -y s.t. y <= 5 : -5, slack 0 *)
+
+(* the docstring example of elim_vars_by_refining, by each tactic *)
+Example ex_refine_tactic1 : elim_vars_by_refining noO [ex_t1] [ex_c1] ["y"] false [1%nat] = inl ([ex_x1], [(1%Z, 1%Z)]).
+Proof. vm_compute. reflexivity. Qed.
+Example ex_refine_tactic2 :
+  elim_vars_by_refining (table_oracle 0 ex_tbl4) [ex_t1] [ex_c1] ["y"] false [2%nat] = inl ([ex_x1], [(2%Z, 1%Z)]).
+Proof. vm_compute. reflexivity. Qed.
+Example ex_refine_tactic3 : elim_vars_by_refining noO [ex_t1] [ex_c1] ["y"] false [3%nat] = inl ([ex_x1], [(3%Z, 1%Z)]).
+Proof. vm_compute. reflexivity. Qed.
+Example ex_refine_tactic4 : elim_vars_by_refining noO [ex_t1] [ex_c1] ["y"] false [4%nat] = inl ([ex_x1], [(4%Z, 1%Z)]).
+Proof. vm_compute. reflexivity. Qed.
+(* tactic 4 through its recursive branch: y <= z <= 5 *)
+Example ex_refine_tactic4_rec :
+  elim_vars_by_refining noO [ex_t1] [ex_c2; ex_c3] ["y"; "z"] false [4%nat] = inl ([ex_x1], [(4%Z, 2%Z)]).
+Proof. vm_compute. reflexivity. Qed.
+Example ex_refine_tactic5 :
+  elim_vars_by_refining (table_oracle 0 ex_tbl4) [ex_t1] [ex_c1] ["y"] false [5%nat] = inl ([ex_x1], [(5%Z, 1%Z)]).
+Proof. vm_compute. reflexivity. Qed.
+(* the docstring example of elim_vars_by_relaxing *)
+Example ex_relax_tactic1 : elim_vars_by_relaxing noO [ex_t2] [ex_c1] ["y"] false [1%nat] = inl ([ex_x11], [(1%Z, 1%Z)]).
+Proof. vm_compute. reflexivity. Qed.
+Example ex_relax_tactic3 : elim_vars_by_relaxing noO [ex_t2] [ex_c1] ["y"] false [3%nat] = inl ([ex_x11], [(3%Z, 1%Z)]).
+Proof. vm_compute. reflexivity. Qed.
+
+Lemma noO_spec : lp_spec 0 noO.
+Proof. intros p. exact I. Qed.
+Lemma ex_wf : wf_input [ex_t1] [ex_c1] ["y"].
+Proof.
+  unfold wf_input, wft', wft, no_us, us, ex_t1, ex_c1, term_vars_p. cbn [tvars keys map fst snd].
+  repeat split; repeat constructor; cbn; try (intros H; repeat destruct H as [H|H]; try discriminate; try contradiction);
+    try (intros H; discriminate).
+Qed.
+(* the theorem instantiated: y <= 5 and x <= 1 imply x + y <= 6 *)
+Example ex_refine_meaning : forall rho, sat rho ex_c1 -> sat rho ex_x1 -> sat rho ex_t1.
+Proof.
+  intros rho Hc Hx.
+  pose proof (C04_refine_all noO noO_spec [1%nat] [ex_t1] [ex_c1] ["y"] false [ex_x1] _ ex_wf ex_refine_tactic1 rho) as H.
+  assert (Hs : sat_list rho [ex_t1]) by (apply H; (constructor; [assumption|constructor])).
+  inversion Hs. assumption.
+Qed.
+End Examples.
+
+(* ------------------------------------------------------------------ *)
+(** * Which failures are possible (C04_errors) *)
+Definition nototal (O : oracle) : Prop := lp_total O -> False.
+Lemma nototal_miss O p : O p = LpMiss -> nototal O.
+Proof. intros E HT. specialize (HT p). rewrite E in HT. exact HT. Qed.
+Lemma nototal_other O p st : O p = LpOther st -> nototal O.
+Proof. intros E HT. specialize (HT p). rewrite E in HT. exact HT. Qed.
+
+Lemma reduce_loop_err O vs : forall rest kept ctx e,
+  reduce_loop O vs kept rest ctx = inr e -> e = ValueErr \/ (e = OracleMiss /\ nototal O).
+Proof.
+  induction rest as [|[a b] rest IH]; intros kept ctx e H; simpl in H; [discriminate|].
+  match type of H with context [O ?p] => destruct (O p) as [f s| | |st|] eqn:EO end; eauto.
+  - destruct (qle (qneg f) b); eauto.
+  - inversion H. left. reflexivity.
+  - inversion H. right. split; [reflexivity|eapply nototal_miss; exact EO].
+Qed.
+Lemma simplify_err O ts c e :
+  poly_simplify O ts (Some c) = inr e ->
+  e = ValueErr \/ (e = OracleMiss /\ nototal O) \/
+  (e = Escape "AssertionError" /\ c <> [] /\ forall t, In t c -> term_vars_p t = []).
+Proof.
+  rewrite poly_simplify_unfold. destruct (simp_vars ts (Some c)) as [|v l] eqn:E.
+  - cbn [opt_list]. destruct c as [|c0 c'].
+    + destruct (new_self ts (Some [])) as [|t [|t' ns]]; intros H; inversion H. left. reflexivity.
+    + intros H. inversion H. right. right. split; [reflexivity|]. split; [discriminate|].
+      intros t Ht. destruct (term_vars_p t) as [|x xs] eqn:Ex; [reflexivity|exfalso].
+      assert (Hin : In x (simp_vars ts (Some (c0 :: c')))).
+      { unfold simp_vars. apply in_polytope_vars. exists t. split; [right; exact Ht|rewrite Ex; left; reflexivity]. }
+      rewrite E in Hin. destruct Hin.
+  - intros H. apply bind_inr in H. destruct H as [H|[red [_ H]]]; [|discriminate].
+    destruct (reduce_polytope_cases O (v :: l) (map (term_to_row (v :: l)) (new_self ts (Some c)))
+                (map (term_to_row (v :: l)) (opt_list (Some c)))) as [Hc|[r [_ [_ Hc]]]]; rewrite Hc in H; [|discriminate].
+    apply reduce_loop_err in H. tauto.
+Qed.
+
+Lemma signq_total t v : In v (term_vars_p t) -> exists s, signq t v = inl s.
+Proof.
+  intros H. unfold signq, term_get_sign, term_get_polarity. destruct (assoc_in_keys v (tvars t) H) as [q ->].
+  eexists. reflexivity.
+Qed.
+Lemma signq_total_nz t v : qzero (get_coefficient t v) = false -> exists s, signq t v = inl s.
+Proof.
+  intros H. apply signq_total. destruct (in_dec string_dec v (term_vars_p t)) as [i|n]; [exact i|].
+  rewrite (get_coefficient_notin t v n) in H. discriminate.
+Qed.
+Lemma kk_sign_invalid_total term ctx tc l :
+  (forall v, In v l -> In v (term_vars_p term)) -> exists b, kk_sign_invalid term ctx tc l = inl b.
+Proof.
+  induction l as [|v l' IH]; intros H; simpl; [eexists; reflexivity|].
+  assert (IH' : exists b, kk_sign_invalid term ctx tc l' = inl b) by (apply IH; intros x Hx; apply H; right; exact Hx).
+  destruct (negb (qzero (get_coefficient ctx v))) eqn:Z; [|exact IH'].
+  apply negb_true_iff in Z. destruct (signq_total_nz ctx v Z) as [sc ->].
+  destruct (signq_total term v (H v (or_introl eq_refl))) as [st ->]. simpl.
+  destruct (negb (Qeq_bool (qmul tc sc) st)); [eexists; reflexivity|exact IH'].
+Qed.
+Lemma kk_residuals_total term ctx i i_var partial : forall l j,
+  (forall v, In v l -> In v (term_vars_p term)) -> exists r, kk_residuals term ctx i i_var l j partial = inl r.
+Proof.
+  induction l as [|v l IH]; intros j H; simpl; [eexists; reflexivity|].
+  destruct (IH (S j)) as [r Hr]; [intros x Hx; apply H; right; exact Hx|].
+  destruct (signq_total term v (H v (or_introl eq_refl))) as [st Hst].
+  destruct (Nat.eqb j i); simpl; rewrite ?Hst; simpl;
+    match goal with |- context [qle ?a ?b] => destruct (qle a b) end; try (eexists; reflexivity); rewrite Hr; simpl; eexists; reflexivity.
+Qed.
+Lemma kk_find_row_total term other fvars tc i i_var partial : forall cands,
+  (forall v, In v fvars -> In v (term_vars_p term)) ->
+  exists r, kk_find_row term cands other fvars tc i i_var partial = inl r.
+Proof.
+  intros cands H. induction cands as [|c cands IH]; simpl; [eexists; reflexivity|].
+  destruct (term_eqb_p c term); [exact IH|].
+  destruct (existsb _ other); [exact IH|].
+  destruct (kk_sign_invalid_total term c tc fvars H) as [b ->]. simpl.
+  destruct (qzero (get_coefficient c i_var) || b); [exact IH|].
+  destruct (kk_residuals_total term c i i_var partial fvars 0 H) as [[r|] ->]; simpl; [eexists; reflexivity|exact IH].
+Qed.
+Lemma kk_rows_err term ctx other fvars tc :
+  (forall v, In v fvars -> In v (term_vars_p term)) ->
+  forall todo i rows partial co e, kk_rows term ctx other fvars tc todo i rows partial co = inr e -> e = ValueErr.
+Proof.
+  intros H. induction todo as [|v todo IH]; intros i rows partial co e He; simpl in He; [discriminate|].
+  destruct (kk_find_row_total term other fvars tc i v partial (list_diff ctx rows) H) as [[[c r]|] Hr];
+    rewrite Hr in He; simpl in He.
+  - eapply IH. exact He.
+  - inversion He. reflexivity.
+Qed.
+Lemma get_kk_err term ctx vs refine e : get_kaykobad_context term ctx vs refine = inr e -> e = ValueErr.
+Proof.
+  unfold get_kaykobad_context. cbv zeta. intros H. apply bind_inr in H. destruct H as [H|[[rows o] [_ H]]].
+  - eapply kk_rows_err; [|exact H]. intros v Hv. apply in_list_intersection in Hv. tauto.
+  - destruct (negb o && _); inversion H. reflexivity.
+Qed.
+Lemma solve_err rows vs e : solve_for_variables rows vs = inr e -> e = ValueErr.
+Proof.
+  unfold solve_for_variables. cbv zeta. destruct (negb _); [intros H; inversion H; reflexivity|].
+  destruct (gauss _ [] rows) as [p r]. destruct (forallb row_is_zero r); discriminate.
+Qed.
+Lemma as_value_error_inr {A} (m : M A) e (P : err -> Prop) :
+  (forall e0, m = inr e0 -> P e0) -> P ValueErr -> as_value_error m = inr e -> P e.
+Proof.
+  intros H HV. destruct m as [a|e0]; simpl; [discriminate|].
+  destruct (is_value_error e0) eqn:V; intros E; inversion E; subst; [exact HV|apply H; reflexivity].
+Qed.
+Lemma tactic_1_err O term ctx vs refine e : tactic_1 O term ctx vs refine = inr e -> e = ValueErr.
+Proof.
+  unfold tactic_1, context_reduction. intros H. apply bind_inr in H. destruct H as [H|[r [_ H]]]; [|discriminate].
+  apply bind_inr in H. destruct H as [H|[[rows fv] [_ H]]].
+  - revert H. apply (as_value_error_inr _ e (fun e0 => e0 = ValueErr)); [|reflexivity]. intros e0 H0. eapply get_kk_err. exact H0.
+  - apply bind_inr in H. destruct H as [H|[s [_ H]]]; [eapply solve_err; exact H|discriminate].
+Qed.
+Lemma get_tlp_err O term ctx vs refine e :
+  get_tlp_context O term ctx vs refine = inr e -> e = ValueErr \/ (e = OracleMiss /\ nototal O).
+Proof.
+  unfold get_tlp_context. cbv zeta. destruct (polytope_vars ctx []) as [|v0 vl]; [intros H; inversion H; tauto|].
+  match goal with |- context [O ?p] => destruct (O p) as [f s| | |st|] eqn:EO end;
+    try (intros H; inversion H; tauto).
+  - destruct (Nat.ltb _ _); [intros H; inversion H; tauto|].
+    destruct (Nat.ltb _ _); [intros H; inversion H; tauto|].
+    destruct (gauss _ [] _) as [p r].
+    destruct (negb _); [intros H; inversion H; tauto|].
+    destruct (refine && _); [intros H; inversion H; tauto|].
+    destruct (negb refine && _); [intros H; inversion H; tauto|]. discriminate.
+  - intros H. inversion H. right. split; [reflexivity|eapply nototal_miss; exact EO].
+Qed.
+Lemma tactic_5_err O term ctx vs refine e :
+  tactic_5 O term ctx vs refine = inr e -> e = ValueErr \/ (e = OracleMiss /\ nototal O).
+Proof.
+  unfold tactic_5, context_reduction. intros H. apply bind_inr in H. destruct H as [H|[r [_ H]]]; [|discriminate].
+  apply bind_inr in H. destruct H as [H|[[rows fv] [_ H]]].
+  - revert H. apply (as_value_error_inr _ e (fun e0 => e0 = ValueErr \/ (e0 = OracleMiss /\ nototal O))); [|left; reflexivity].
+    intros e0 H0. eapply get_tlp_err. exact H0.
+  - apply bind_inr in H. destruct H as [H|[s [_ H]]]; [left; eapply solve_err; exact H|discriminate].
+Qed.
+Lemma tactic_2_err O term ctx vs refine e :
+  tactic_2 O term ctx vs refine = inr e ->
+  e = ValueErr \/ ((e = OracleMiss \/ e = Escape "TypeError") /\ nototal O).
+Proof.
+  unfold tactic_2. cbv zeta. destruct (map term_copy _) as [|c0 nc]; [intros H; inversion H; tauto|].
+  destruct (nonempty _); [intros H; inversion H; tauto|].
+  match goal with |- context [O ?p] => destruct (O p) as [f s| | |st|] eqn:EO end;
+    try (intros H; inversion H; tauto).
+  - destruct (negb _); discriminate.
+  - intros H. inversion H. right. split; [right; reflexivity|eapply nototal_other; exact EO].
+  - intros H. inversion H. right. split; [left; reflexivity|eapply nototal_miss; exact EO].
+Qed.
+Lemma tactic_3_err O term ctx vs refine e :
+  nonempty (list_intersection vs (term_vars_p term)) = true ->
+  tactic_3 O term ctx vs refine = inr e -> e = ValueErr.
+Proof.
+  unfold tactic_3. cbv zeta. destruct (list_intersection vs (term_vars_p term)); [discriminate|].
+  intros _. apply tactic_1_err.
+Qed.
+Lemma tactic_4_err : forall fuel term ctx vs refine no_vars e,
+  tactic_4 fuel term ctx vs refine no_vars = inr e ->
+  e = ValueErr \/ e = Escape "IndexError" \/ e = Escape "fuel".
+Proof.
+  induction fuel as [|fuel IHf]; intros term ctx vs refine no_vars e H; [inversion H; tauto|].
+  cbn [tactic_4] in H. cbv zeta in H.
+  destruct (negb refine); [inversion H; tauto|].
+  destruct (Nat.ltb 1 _); [inversion H; tauto|].
+  destruct (list_intersection vs (term_vars_p term)) as [|v crest]; [inversion H; tauto|].
+  set (P1 := fun c => negb (nonempty (list_intersection (term_vars_p c) no_vars)) &&
+                      (negb (qzero (get_coefficient c v)) &&
+                       qlt 0 (qmul (qmul 1 (get_coefficient c v)) (get_coefficient term v)))) in H.
+  set (goal := map term_copy (filter (fun c => Nat.eqb (List.length (list_intersection (term_vars_p c) vs)) 1) (filter P1 ctx))) in *.
+  set (useful := map term_copy (filter (fun c => Nat.eqb (List.length (list_intersection (term_vars_p c) vs)) 2) (filter P1 ctx))) in *.
+  clearbody goal useful.
+  match type of H with context [?f useful 1%nat] => set (loop := f) in H end.
+  destruct goal as [|g gs].
+  - destruct useful as [|u0 us0]; [inversion H; tauto|].
+    revert H. generalize 1%nat. generalize (u0 :: us0). clear u0 us0.
+    intros usl. induction usl as [|u usl IHl]; intros total H; [discriminate|].
+    unfold loop in H at 1. lazy beta iota fix in H. fold loop in H.
+    destruct (term_isolate_variable u v) as [iso|e0] eqn:EI.
+    + match type of H with context [tactic_4 fuel ?a ?b ?c ?d ?f] =>
+        destruct (tactic_4 fuel a b c d f) as [[[rt|] c0]|e0] eqn:ER end.
+      * discriminate.
+      * eapply IHl. exact H.
+      * destruct (is_value_error e0); [eapply IHl; exact H|]. inversion H; subst. eapply IHf. exact ER.
+    + inversion H; subst. apply isolate_error in EI. tauto.
+  - apply bind_inr in H. destruct H as [H|[iso [_ H]]]; [|discriminate].
+    apply isolate_error in H. tauto.
+Qed.
+
+Definition in16 (num : nat) : Prop := (1 <= num <= 6)%nat.
+Definition allowed (O : oracle) (order : list nat) (e : err) : Prop :=
+  e = ValueErr \/
+  ((e = OracleMiss \/ e = Escape "TypeError") /\ nototal O) \/
+  (e = Escape "KeyError" /\ exists num, In num order /\ ~ in16 num) \/
+  ((e = Escape "IndexError" \/ e = Escape "fuel") /\ In 4%nat order).
+
+Lemma run_tactic_err O order num term ctx vs refine e :
+  In num order -> nonempty (list_intersection vs (term_vars_p term)) = true ->
+  run_tactic O num term ctx vs refine = inr e -> allowed O order e.
+Proof.
+  intros Hin Hne H. unfold allowed.
+  destruct num as [|[|[|[|[|[|[|k]]]]]]]; simpl run_tactic in H.
+  - inversion H. right. right. left. split; [reflexivity|]. exists 0%nat. split; [exact Hin|]. unfold in16. lia.
+  - apply tactic_1_err in H. tauto.
+  - apply tactic_2_err in H. tauto.
+  - apply (tactic_3_err O term ctx vs refine e Hne) in H. tauto.
+  - change (tactic_4 (S (List.length ctx)) term ctx vs refine [] = inr e) in H. apply tactic_4_err in H.
+    destruct H as [->|[->| ->]]; [left; reflexivity|right; right; right; split; [left; reflexivity|exact Hin]|
+                                  right; right; right; split; [right; reflexivity|exact Hin]].
+  - apply tactic_5_err in H. destruct H as [->|[-> Hn]]; [left; reflexivity|right; left; split; [left; reflexivity|exact Hn]].
+  - discriminate.
+  - inversion H. right. right. left. split; [reflexivity|]. exists (S (S (S (S (S (S (S k))))))). split; [exact Hin|].
+    unfold in16. lia.
+Qed.
+
+Lemma allowed_incl O order1 order2 e : incl order1 order2 -> allowed O order1 e -> allowed O order2 e.
+Proof.
+  intros Hi [H|[H|[[H [n [Hn1 Hn2]]]|[H1 H2]]]]; unfold allowed.
+  - tauto.
+  - tauto.
+  - right. right. left. split; [exact H|]. exists n. split; [apply Hi; exact Hn1|exact Hn2].
+  - right. right. right. split; [exact H1|apply Hi; exact H2].
+Qed.
+
+Lemma ttl_err O order term ctx vs refine e :
+  nonempty (list_intersection vs (term_vars_p term)) = true ->
+  transform_term_loop O order term ctx vs refine = inr e -> allowed O order e /\ is_value_error e = false.
+Proof.
+  intros Hne. induction order as [|n order IH]; simpl; intros H; [discriminate|].
+  assert (IH' : transform_term_loop O order term ctx vs refine = inr e -> allowed O (n :: order) e /\ is_value_error e = false).
+  { intros H'. destruct (IH H') as [A B]. split; [|exact B]. eapply allowed_incl; [|exact A]. intros x Hx. right. exact Hx. }
+  destruct (run_tactic O n term ctx vs refine) as [[[r|] c]|e0] eqn:R; [discriminate|auto|].
+  destruct (is_value_error e0) eqn:V; [auto|]. inversion H; subst. split; [|exact V].
+  eapply run_tactic_err; [left; reflexivity|exact Hne|exact R].
+Qed.
+
+Lemma nonempty_inter_sym (l1 l2 : list var) :
+  nonempty (list_intersection l1 l2) = true -> nonempty (list_intersection l2 l1) = true.
+Proof.
+  rewrite !nonempty_true. intros H. destruct (list_intersection l1 l2) as [|x r] eqn:E; [congruence|].
+  assert (Hx : In x (list_intersection l1 l2)) by (rewrite E; left; reflexivity).
+  apply in_list_intersection in Hx. intros E2.
+  assert (Hx2 : In x (list_intersection l2 l1)) by (apply in_list_intersection; tauto).
+  rewrite E2 in Hx2. destruct Hx2.
+Qed.
+
+Lemma transform_loop_err O order ctx vs refine : forall todo done used e,
+  transform_loop O order ctx vs refine done todo used = inr e -> allowed O order e.
+Proof.
+  induction todo as [|t todo IH]; intros done used e H; simpl in H; [discriminate|].
+  destruct (nonempty (list_intersection (term_vars_p t) vs)) eqn:Ne.
+  - match type of H with context [transform_term O order t ?h vs refine] =>
+      destruct (transform_term O order t h vs refine) as [[[nt num] cnt]|e0] eqn:TT end.
+    + simpl in H. eapply IH. exact H.
+    + destruct (is_value_error e0) eqn:V; [simpl in H; eapply IH; exact H|].
+      inversion H; subst. unfold transform_term in TT. rewrite Ne in TT. cbn [negb] in TT.
+      apply ttl_err in TT; [apply TT|]. apply nonempty_inter_sym. exact Ne.
+  - eapply IH. exact H.
+Qed.
+
+Definition allowed_all (O : oracle) (order : list nat) (ctx : list pterm) (e : err) : Prop :=
+  allowed O order e \/
+  (e = Escape "AssertionError" /\ ctx <> [] /\ forall t, In t ctx -> term_vars_p t = []).
+
+Lemma simplify_allowed O order ts ctx e : poly_simplify O ts (Some ctx) = inr e -> allowed_all O order ctx e.
+Proof.
+  intros H. apply simplify_err in H. unfold allowed_all, allowed. destruct H as [->|[[-> Hn]|H]]; [tauto|left|right; exact H].
+  right. left. split; [left; reflexivity|exact Hn].
+Qed.
+
+Lemma transform_err O order self ctx vs refine sp e :
+  transform O self ctx vs refine sp order = inr e -> allowed_all O order ctx e.
+Proof.
+  unfold transform. intros H. apply bind_inr in H. destruct H as [H|[[that used] [_ H]]].
+  - left. eapply transform_loop_err. exact H.
+  - destruct sp; [|discriminate]. apply bind_inr in H. destruct H as [H|[r [_ H]]]; [|discriminate].
+    eapply simplify_allowed. exact H.
+Qed.
+
+Lemma allowed_all_value O order ctx : allowed_all O order ctx ValueErr.
+Proof. left. left. reflexivity. Qed.
+
+Theorem C04_errors_refine O order self ctx vs sp e :
+  elim_vars_by_refining O self ctx vs sp order = inr e -> allowed_all O order ctx e.
+Proof.
+  unfold elim_vars_by_refining. intros H. apply bind_inr in H. destruct H as [H|[tl [_ H]]].
+  - destruct sp; [|discriminate]. revert H. apply (as_value_error_inr _ e (allowed_all O order ctx)); [|apply allowed_all_value].
+    intros e0 H0. eapply simplify_allowed. exact H0.
+  - revert H. apply (as_value_error_inr _ e (allowed_all O order ctx)); [|apply allowed_all_value]. intros e0 H0. eapply transform_err. exact H0.
+Qed.
+Theorem C04_errors_relax O order self ctx vs sp e :
+  elim_vars_by_relaxing O self ctx vs sp order = inr e -> allowed_all O order ctx e.
+Proof.
+  unfold elim_vars_by_relaxing. intros H. apply bind_inr in H. destruct H as [H|[tl [_ H]]].
+  - destruct sp; [|discriminate]. revert H. apply (as_value_error_inr _ e (allowed_all O order ctx)); [|apply allowed_all_value].
+    intros e0 H0. eapply simplify_allowed. exact H0.
+  - apply bind_inr in H. destruct H as [H|[[tl2 used] [_ H]]]; [|discriminate].
+    revert H. apply (as_value_error_inr _ e (allowed_all O order ctx)); [|apply allowed_all_value]. intros e0 H0. eapply transform_err. exact H0.
+Qed.
+
+(* the coarse reading asked for, and the sharpening under a total solver and tactic numbers 1..6 *)
+Corollary C04_errors O order self ctx vs sp e :
+  elim_vars_by_refining O self ctx vs sp order = inr e \/ elim_vars_by_relaxing O self ctx vs sp order = inr e ->
+  e = ValueErr \/ e = OracleMiss \/ exists k, e = Escape k.
+Proof.
+  intros [H|H]; [apply C04_errors_refine in H|apply C04_errors_relax in H];
+    (destruct H as [[H|[[[H|H] _]|[[H _]|[[H|H] _]]]]|[H _]]; subst; eauto).
+Qed.
+Corollary C04_errors_total O order self ctx vs sp e :
+  lp_total O -> (forall num, In num order -> in16 num) -> (ctx = [] \/ all_have_vars ctx = true) ->
+  elim_vars_by_refining O self ctx vs sp order = inr e \/ elim_vars_by_relaxing O self ctx vs sp order = inr e ->
+  e = ValueErr \/ ((e = Escape "IndexError" \/ e = Escape "fuel") /\ In 4%nat order).
+Proof.
+  intros HT Hord Hctx H.
+  assert (A : allowed_all O order ctx e) by (destruct H as [H|H]; [apply C04_errors_refine in H|apply C04_errors_relax in H]; exact H).
+  destruct A as [[A|[[_ A]|[[_ [n [A1 A2]]]|A]]]|[_ [A1 A2]]].
+  - left. exact A.
+  - exfalso. apply A. exact HT.
+  - exfalso. apply A2. apply Hord. exact A1.
+  - right. exact A.
+  - exfalso. destruct Hctx as [->|Hv]; [congruence|]. destruct ctx as [|c0 ctx']; [congruence|].
+    pose proof (all_have_vars_in _ c0 Hv (or_introl eq_refl)) as Hn. apply Hn. apply A2. left. reflexivity.
+Qed.
+
+(* ------------------------------------------------------------------ *)
+(** * Why [wft'] (no stored zero coefficient) is asked of the terms being transformed *)
+(* A model-only corner: with a stored zero coefficient, [term_copy] drops the entry, the copy is no longer
+   [==] to the term, [remove_first] leaves the term's own copy among its helpers, and tactic 4 then
+   "refines" x + y + 0z <= 5 by itself into 0 <= 0.  Python terms never store a zero (PolyhedralTerm.__init__
+   filters them) and list.remove would raise, so this input is outside what the code can reach. *)
+Example refine_needs_nonzero_coefficients :
+  exists self r st rho,
+    Forall wft self /\
+    elim_vars_by_refining noO self [] ["y"%string] false [4%nat] = inl (r, st) /\
+    sat_list rho [] /\ sat_list rho r /\ ~ sat_list rho self.
+Proof.
+  exists [mkT [("x"%string, 1%Q); ("y"%string, 1%Q); ("z"%string, 0%Q)] 5%Q], [mkT [] 0%Q], [(4%Z, 1%Z)],
+         (fun v => if String.eqb v "x" then 10 else 0).
+  split; [|split; [vm_compute; reflexivity|split; [constructor|split]]].
+  - constructor; [|constructor]. unfold wft. cbn. repeat constructor; cbn; intros H;
+      repeat (destruct H as [H|H]; try discriminate); try contradiction.
+  - constructor; [|constructor]. unfold sat. cbn. unfold Q2R. simpl. lra.
+  - intros H. inversion H as [|? ? H1 _]; subst. unfold sat in H1. cbn in H1. unfold Q2R in H1. simpl in H1. lra.
+Qed.
+
+(** * Why "_" must be fresh (the side condition of tactic 3 is a real precondition of the code) *)
+(* x + y <= 6 in context y + _ <= 5, eliminating y with tactic 3 (the Python returns the same x <= 3.5):
+   at  x = 0, y = 105, _ = -100  the context and the result hold but the original term does not. *)
+Example tactic3_needs_fresh_underscore :
+  exists self ctx r st rho,
+    Forall wft' self /\ Forall wft' ctx /\
+    elim_vars_by_refining noO self ctx ["y"%string] false [3%nat] = inl (r, st) /\
+    sat_list rho ctx /\ sat_list rho r /\ ~ sat_list rho self.
+Proof.
+  exists [mkT [("x"%string, 1%Q); ("y"%string, 1%Q)] 6%Q], [mkT [("y"%string, 1%Q); ("_"%string, 1%Q)] 5%Q],
+         [mkT [("x"%string, 1%Q)] (7 # 2)%Q], [(3%Z, 1%Z)],
+         (fun v => if String.eqb v "y" then 105 else if String.eqb v "_" then -100 else 0).
+  split; [|split; [|split; [vm_compute; reflexivity|split; [|split]]]].
+  - constructor; [|constructor]. split.
+    + unfold wft. cbn. repeat constructor; cbn; intros H; repeat (destruct H as [H|H]; try discriminate); try contradiction.
+    + cbn. repeat constructor; cbn; intros H; discriminate.
+  - constructor; [|constructor]. split.
+    + unfold wft. cbn. repeat constructor; cbn; intros H; repeat (destruct H as [H|H]; try discriminate); try contradiction.
+    + cbn. repeat constructor; cbn; intros H; discriminate.
+  - constructor; [|constructor]. unfold sat. cbn. unfold Q2R. simpl. lra.
+  - constructor; [|constructor]. unfold sat. cbn. unfold Q2R. simpl. lra.
+  - intros H. inversion H as [|? ? H1 _]; subst. unfold sat in H1. cbn in H1. unfold Q2R in H1. simpl in H1. lra.
+Qed.
+
+(* ------------------------------------------------------------------ *)
+Print Assumptions solve_sound.
+Print Assumptions solve_complete.
+Print Assumptions kaykobad_cone.
+Print Assumptions kaykobad_nonsingular.
+Print Assumptions all_tactics_ok.
+Print Assumptions transform_refine_sound.
+Print Assumptions transform_relax_sound.
+Print Assumptions C04_refine.
+Print Assumptions C04_relax.
+Print Assumptions C04_refine_all.
+Print Assumptions C04_relax_all.
+Print Assumptions C04_errors.
+Print Assumptions C04_errors_total.
